@@ -12,1007 +12,2514 @@ Definition show_fres (r : fres) : string :=
   end.
 Definition check (rs : list rune) : string := digest (show_fres (format_res rs)).
 Definition full (rs : list rune) : string := show_fres (format_res rs).
-Eval vm_compute in ("<<<M1971>>>" ++ check (runes_of_ascii "packet trueish {
-    @calculatedFrom("""")
-    u @lengthOf(a1),
-}
-
-options {
-    trueish = 42
-}
-
-options {
-    //	t
-}
-
-packet Foo {
-    match matchKey as body {
-        // `tick` ""quote"" 'q'
-        [4294967296] : Packet,
-        00 : A,
-    },
-    @calculatedFrom(""x y"")
-    // " ++ [27880; 37322]%N ++ runes_of_ascii "
-    @lengthOf(a1)
-    repeat f64 rootA,
-}
-
-packet len {
-    @calculatedFrom(""// no comment"")
-    string T @lengthOf(f32a),
-    float32 chars,
-    @rightPad(' ')
-    repeat chars {
-        string A,
-        string i64_ `line1
-        line2`,
-        float32 i8i8,
-        uint64 matchKey @calculatedFrom(""abc"") `" ++ [233]%N ++ runes_of_ascii "`,
-    },
-    A `a\`,
-    @tag(00)
-    @tag(0123456789)
-    @tag(1)
-    u128 {
-        i64_ {
-            // c
-            // trailing space 
-            BodyLength,
-            i64 u `{ , }`,
-            match Z9_ as chars {
-                [""""] : float,
-                [0123456789, 42, 3, 10, 10] : stringy,
-                ""1"" : trueish,
-                // packet A { u8 x, }
-                ""packet"" : u128,
-                [""x y"", 7] : A,
-            },
-            int32 a1,
-        },
-        rootA `doc`,
-        //x
-        // `tick` ""quote"" 'q'
-    },
-    @rightPad(' ')
-    repeat options1 {
-        int @calculatedFrom(""packet""),// " ++ [128512]%N ++ runes_of_ascii " emoji
-    },
-    repeat char[65535] falsey,
-    @rightPad()
-    repeat char[] i8i8,
-    repeat calculatedFrom msg_type,
-    @rightPad()
-    @tag(65535)
-    repeat calculatedFrom crc,
-}")).
-Eval vm_compute in ("<<<M1503>>>" ++ check (runes_of_ascii "root packet msg_type {
-    u128,
-    @calculatedFrom(""" ++ [233]%N ++ runes_of_ascii "t" ++ [233]%N ++ runes_of_ascii """)
-    repeat char[3] metadata `crlf
-        line`,
-    char[255] Pad,
-    asx @calculatedFrom(""packet""),
-    repeat stringy `tab	here`,
-    //x
-    //	t
-    repeat As `two words`,
-    @leftPad('\x00')
-    repeat matchKey `a\`,
-    @rightPad(' ')
-    repeat Pad {
-        repeat u,
-        // trailing space 
-        // packet A { u8 x, }
-        repeat char[] uint8x,
-    },
-    u128 {
-        repeat As `u8 x,`,
-        pack msg_type,
-        uint32 lengthOf @calculatedFrom(""1""),
-        match roots as x {
-            ""{,}"" : Pad,
-        },
-    },
-}
-
-root packet tag {
-    string pack,
-}
-
-root packet u8x {
-    string pack `doc`,
-    @lengthOf(options1)
-    f32 matchKey @calculatedFrom(""`tick`"") `two words`,
-    @leftPad('\x00')
-    @lengthOf(Packet)
-    @tag(007)
-    int32 Pad @calculatedFrom(""a\\""),
-    @calculatedFrom("""")
-    string a1 @lengthOf(metadata),
-    match u128 as Foo {
-        [""`tick`""] : msg_type,
-        10 : msg_type,
-        00 : len,
-        ""`tick`"" : _x,
-        1 : repeatCount,
-        [1, 1] : pack,
-    },
-    @leftPad()
-    float64 pack `
-        `,
-}")).
-Eval vm_compute in ("<<<M375>>>" ++ check (runes_of_ascii "
-options{ MetaDataX= ' '
-//	t
-// trailing space 
-; trueish = """ ++ [233]%N ++ runes_of_ascii "t" ++ [233]%N ++ runes_of_ascii """ ;
-    /// triple
-    } packet BodyLength{@lengthOf( repeatCount ) char[65535 ]
-    crc @calculatedFrom(
-    """"
-),zchar[0 ]
-x_y_z @calculatedFrom( ""packet"" )`a\` , } packet Header	{	repeat
-    // " ++ [128512]%N ++ runes_of_ascii " emoji
-    T
-{
-//x
-//x
-u128 chars , }, match Pad as
-    crc{ ""a\""b"" :	x , }
-    ,
-    @lengthOf(	rootA
-) @lengthOf(
-stringy )
-i32
-    // a // b
-    x
-,
-    @calculatedFrom( """ ++ [128512]%N ++ runes_of_ascii """
-) int8	u @lengthOf(
-    Pad
-) `doc` , @tag(
-65535)charz { a1
-_x,
-repeat	float32 Header `say ""hi""` ,char u , } ,
-    //x
-    @leftPad ( )
-@leftPad (
-    '0' ) @rightPad( '\x00'
-    )
-    match falsey as As { // " ++ [128512]%N ++ runes_of_ascii " emoji
-""a\\"": pack } /// triple
-,repeat metadata , match i8i8 as u {
-[ 4294967296 ,
-    42 ] // @lengthOf(
-: uint8x ,}  , repeat uint16
-    chars
-// " ++ [27880; 37322]%N ++ runes_of_ascii "
-// @lengthOf(
-`u8 x,` ,
-u16 repeatCount`crlf
-line` ,
-} packet
-    tag {
-    char[ 7 ]// `tick` ""quote"" 'q'
-trueish  , int8
-    string_ ``
-// @lengthOf(
-// @lengthOf(
-,
-    } 	 ")).
-Eval vm_compute in ("<<<M149>>>" ++ check (runes_of_ascii "MetaData As{
-    u//
-matchKey	, char[] T	, char[] Foo// @lengthOf(
-`{ , }`,
-    }root
-packet
-    T { @lengthOf(
-tag ) @tag( 0123456789 ) match repeatCount as
-    BodyLength { """ ++ [233]%N ++ runes_of_ascii "t" ++ [233]%N ++ runes_of_ascii """  :o ,
-65535 : float,
-    ""a	b""	: _x , [ ""x y"" , 65535
-// packet A { u8 x, }
-//x
-] : string_ ,}
-,}
-    root packet
-_x { match msg_type
-    // trailing space 
-    as
-    f32a {""\" ++ [233]%N ++ runes_of_ascii """ : Header 3	:
-repeatCount [7, ""a	b"" ] :
-_x
-, ""it's"":
-stringy 10
-:
-//	t
-/// triple
-As ,""it's"" :lengthOf }
-, @calculatedFrom(""packet"" ) int64// `tick` ""quote"" 'q'
-falsey ,	@leftPad// packet A { u8 x, }
-( )
-//	t
-//
-char[ 1 ]len// @lengthOf(
-@lengthOf( Foo ) ,	chars
-T ,
-    zchar[
-007	]	options1
-,
-match f32a as
-asx
-{[ ""1"" ] :matchKey, """ ++ [28040; 24687]%N ++ runes_of_ascii """: As ,
-    // c
-    4294967296 : options1 ,
-}
-    , }	MetaData o
-    {	zchar[ 42] repeatCount ,packetx falsey,Packet options1
-`{ , }` ,} options { falsey = ""a\\""	} // " ++ [128512]%N ++ runes_of_ascii " emoji")).
-Eval vm_compute in ("<<<M63>>>" ++ check (runes_of_ascii "// trailing space 
-options{
-    asx = """ ++ [233]%N ++ runes_of_ascii "t" ++ [233]%N ++ runes_of_ascii """ zchar = 7 i8i8=65535 ;	Pad =i8
-; } // a // b
-MetaData
-    string_  { //	t
-char[ 0 // packet A { u8 x, }
-]zchar ,// `tick` ""quote"" 'q'
-char[ 4294967296] msg_type ,
-u16
-MetaDataX `" ++ [233]%N ++ runes_of_ascii "`,} root packet Foo{	f64
-BodyLength
-@lengthOf(
-repeatCount ) ,
-repeat asx {
-char[ 00] stringy // `tick` ""quote"" 'q'
-@lengthOf( Foo)
-    ,  i8 string_,}
-    ,
-float64 i8i8 `say ""hi""` ,  @tag( 0 ) MetaDataX
-    {// " ++ [27880; 37322]%N ++ runes_of_ascii "
-repeat uint16 stringy
-,	repeat x_y_z , asx, } ,
-    @rightPad( '\x00' ) repeat
-    char[7
-] metadata
-// a // b
-// " ++ [27880; 37322]%N ++ runes_of_ascii "
-, i16 x
-, match falsey
-    as
-asx	{""a\""b""
-:
-    u ,} // @lengthOf(
-,// trailing space 
-@calculatedFrom(  """"//
+Eval vm_compute in ("<<<M502>>>" ++ check (runes_of_ascii "packet
+    o {  options1 ,@tag(	1// c
 )
-match f32a
-as
-u8x {
-//x
-//
-""a\""b"":matchKey , } //
-,
-x `" ++ [233]%N ++ runes_of_ascii "`  ,char[
-65535 ]
-string_ `u8 x,` , }
-// c
-")).
-Eval vm_compute in ("<<<M1456>>>" ++ check (runes_of_ascii "options {
-    StringPrefixLenType = u16;
-    ArrayPrefixLenType = u32;
-    FixedStringPadFromLeft = false;
-    FixedStringPadChar = '0';
-}
-packet Logout {
-    f64 f1,
-    i16 Note,
-    @rightPad('\x00') char[11] Flags,
-}
-packet Cancel {
-    float64 msgKind,
-}
-packet Reject {
-    InQty43 {
-        float32 sym,
-        char[10] Tail,
-        uint8 venue,
-        uint16 f1,
-        char[9] Acct,
-    },
-}
-packet Trade {
-    char[] x,
-    zchar[6] Note,
-    repeat Reject,
-}
-root packet Order {
-    Cancel,
-    Logout,
-    u64 Acct,
-    u32 OrderId,
-    match OrderId as Body {
-        [127, 70] : Reject,
-        177 : Trade,
-        58 : Logout,
-        75 : Cancel,
-    },
-    u32 Tail @calculatedFrom(""CR\
-C32""),
-}
-")).
-Eval vm_compute in ("<<<M1459>>>" ++ check (runes_of_ascii "
-options
-	{	LittleEndian 
-=true	;
-    FixedStringPadFromLeft=  true
-    ;  FixedStringPadChar ='0'	; 
-} packet
-    Trade {
-string 
-clOrdID,	char[]
-Px 
-,u32
-x ,}	packet	Reject 
-{
-
-    int32
-
-    Side2 ,
-	repeat char[ 
-3
-
-    ] clOrdID ,
-    i32
-
-tag7,}
-
-    packet
-Leg{ 
-} root packet	Quote
-
-{string
-    Side2
-
-    , 
-string lastPx	,
-InSym58  {
-    int16  OrderId
-, Reject
-	,
-
-    i8  Qty
-,
-
-    i64  venue
-	,f32 Note , } ,char[] count,
-zchar[
-9
-
-] 
-price
-,u16
-Qty
-,  match Qty
-
-as
-Body {	69
-
-    :
-    Leg
-,
-48  :Trade
-	,
-	51
-    :
-	Reject
-
-    ,
-	}
-
-, u16	Acct@calculatedFrom(
-    ""CRC32""
-) , 
-}")).
-Eval vm_compute in ("<<<M208>>>" ++ check (runes_of_ascii "packet i64_
-    {} packet
-    crc {
-} options
-{ }root packet
-charz {} packet //
-trueish{ repeat char[
-    255] lengthOf `" ++ [28040; 24687; 31867; 22411]%N ++ runes_of_ascii "` , zchar[
-//	t
-/// triple
-00 // a // b
-]x`it's` ,/// triple
-repeat	char[]
-    // `tick` ""quote"" 'q'
-    Packet `say ""hi""` , @calculatedFrom(
-""x y"" // " ++ [27880; 37322]%N ++ runes_of_ascii "
-) char[ 1] lengthOf, lengthOf`crlf
-line` ,	match charz as MetaDataX { ""a	b""
-// " ++ [27880; 37322]%N ++ runes_of_ascii "
-// `tick` ""quote"" 'q'
-: uint8x
-    ""\n"" : calculatedFrom } , @tag(	10
-) float64 i8i8 @calculatedFrom( """ ++ [128512]%N ++ runes_of_ascii """ ) `say ""hi""` ,
-@rightPad(
-'\x00' )
-i32
-Foo`it's`	,
-}
-")).
-Eval vm_compute in ("<<<M179>>>" ++ check (runes_of_ascii "  packet
-    body
-//x
-/// triple
-{ } packet Foo {int @lengthOf( x
-    ) , float32 len
-    `" ++ [28040; 24687; 31867; 22411]%N ++ runes_of_ascii "`, repeat f32a Packet ,	i8 // @lengthOf(
-stringy
-/// triple
-// trailing space 
-@calculatedFrom(""// no comment"" )
-`line1
-line2`
-    ,
-@tag( 0
-    // a // b
-    ) match  u
-    as
-    falsey
-    //
-    { [ 10 , 3, ""`tick`"" , 42	, 3// `tick` ""quote"" 'q'
-]
-    : Pad  ,
-7 : repeatCount// c
-, 0 :
-    Foo}, }MetaData Packet { string// c
-u , }options { uint8x = true
-; }
-")).
-Eval vm_compute in ("<<<M1420>>>" ++ check (runes_of_ascii "  packet
-Frame
-{
-
-    u8
-
-HK
-,
-
-    u8	BK,	u8  TK
-
-    ,  match HK
-as  Hdr {
-
-    1 :
-HdrA
-
-    ,
-2
-:  HdrB
-	,  },match
-BK as Body{	1: BodyA,2 :
-BodyB  ,
-    } 
-, match TK
-as
-	Trl 
-{1 :	TrlA,	}
-    ,}
-	packet HdrA
-    {
-	u8
-
-a,
-	}packet	HdrB {
-u16
-
-b  ,
-
-}
-
-packet BodyA 
-{ 
-u32  c ,
-} packet
-
-    BodyB  {
-
-    u64	d , }packet
-TrlA { u8
-
-e
-,  }  root packet  Msg {	Frame	, u8 x , }")).
-Eval vm_compute in ("<<<M304>>>" ++ check (runes_of_ascii "
-MetaData
-a1 {
-u128// @lengthOf(
-As ,char[
-4294967296] lengthOf ,
-uint64 msg_type	, x_y_z f32a
-, float32	o // " ++ [27880; 37322]%N ++ runes_of_ascii "
-,	} options
-// " ++ [27880; 37322]%N ++ runes_of_ascii "
-// " ++ [128512]%N ++ runes_of_ascii " emoji
-{
-//x
-// @lengthOf(
-}MetaData string_
-    {
-}
-packet roots {
-repeat f32 As `" ++ [28040; 24687; 31867; 22411]%N ++ runes_of_ascii "` , } options {
-    // " ++ [128512]%N ++ runes_of_ascii " emoji
-    uint8x = ""a	b""Packet//
-=42
-;pack =
-    10
-    ;
-    tag= string	; repeatCount = // " ++ [27880; 37322]%N ++ runes_of_ascii "
-char[ 0	] ; }")).
-Eval vm_compute in ("<<<M1497>>>" ++ check (runes_of_ascii "
-packet
-A{ u8 a
-
-,
-
-    } packet
-B {
-
-    u16
-    b
-
-    ,
-
-    } packet
-
-C { u32
-    c  ,
-} root
-packet  M{ 
-u16 Kc
-
-,
-	u16
-
-Kb,
-    u16
-    Ka
-,
-
-    match
-    Kc 
-as  X	{ 
-9 : 
-A	, 10 :
-B , }
-    , match Kb 
-as
-    Y	{ 2:  C,
-1	:A
-,}	, match 
-Ka
-    as Z	{
-    1
-
-    : 
-B ,
-
-}
-    , A,
-
-B 
-,
-C 
-,
-}
-
-")).
-Eval vm_compute in ("<<<M1591>>>" ++ check (runes_of_ascii "packet charz {
-    @lengthOf(Pad)
-    match rootA as string_ {
-        [0123456789] : repeatCount,
-        [00, ""it's""] : T,
-        0 : stringy,
-        4294967296 : msg_type,
-        /// triple
-    },
-}
-
-packet lengthOf {
-    @tag(7)
-    char[255] float @calculatedFrom(""packet""),
-}")).
-Eval vm_compute in ("<<<M1963>>>" ++ check (runes_of_ascii "packet leftPad {
-    trueish {
-        char[] charz @calculatedFrom(""\n""),
-    },
-    @rightPad('0')
-    @tag(255)
-    len {
-        zchar[65535] f32a,
-    },
-    f64 i8i8 ``,
-}
-
-options {
-    chars = 00
-    Pad = false// a // b
-    stringy = string
-}")).
-Eval vm_compute in ("<<<M1248>>>" ++ check (runes_of_ascii "// top
-packet // c0
-calculatedFrom // c1
-{ // c2
-@tag( // c3
-4294967296 // c4
-) // c5
-u // c6
-msg_type // c7
-, // c8
-char[ // c9
-3 // c10
-] // c11
-crc // c12
-@lengthOf( // c13
-len // c14
-) // c15
-`u8 x,` // c16
-, // c17
-} // c18
-")).
-Eval vm_compute in ("<<<M12>>>" ++ check (runes_of_ascii "  MetaData	calculatedFrom
-{char[]
-lengthOf
-    , } // trailing space 
-root // " ++ [27880; 37322]%N ++ runes_of_ascii "
-packet _x { @calculatedFrom(""" ++ [28040; 24687]%N ++ runes_of_ascii """) repeat zchar _x ,
-    // packet A { u8 x, }
-    repeat zchar[42//x
-]
-Pad , @tag(42	)char[ 42] u8x
-    ,}
-")).
-Eval vm_compute in ("<<<M527>>>" ++ check (runes_of_ascii "options
-{
-matchKey = 42/// triple
-x='0' ;
-// packet A { u8 x, }
-//
-charz
-=
-// packet A { u8 x, }
-// trailing space 
-true  ; } MetaData BodyLength
-{
-uint8
-pack,zchar[ 1]float ,  float32 x_y_z `` , ,u32
-_x,i16 body  , }
-")).
-Eval vm_compute in ("<<<M403>>>" ++ check (runes_of_ascii "options
-{
-matchKey 42 =/// triple
-x='0' ;
-// packet A { u8 x, }
-//
-charz
-=
-// packet A { u8 x, }
-// trailing space 
-true  ; } MetaData BodyLength
-{
-uint8
-pack,zchar[ 1]float ,  float32 x_y_z `` ,u32
-_x,i16 body  , }
-")).
-Eval vm_compute in ("<<<M553>>>" ++ check (runes_of_ascii "options
-{
-matchKey = 42/// triple
-x='0' ;
-// packet A { u8 x, }
-//
-charz
-=
-// packet A { u8 x, }
-// trailing space 
-true  ; } MetaData BodyLength
-{
-uint8
-pack,zchar[ 1]float ,  float32 x_y_z `` ,u32
-_x,i16 ,  body }
-")).
-Eval vm_compute in ("<<<M399>>>" ++ check (runes_of_ascii "options
-{
-true = 42/// triple
-x='0' ;
-// packet A { u8 x, }
-//
-charz
-=
-// packet A { u8 x, }
-// trailing space 
-true  ; } MetaData BodyLength
-{
-uint8
-pack,zchar[ 1]float ,  float32 x_y_z `` ,u32
-_x,i16 body  , }
-")).
-Eval vm_compute in ("<<<M26>>>" ++ check (runes_of_ascii "  packet lengthOf// " ++ [27880; 37322]%N ++ runes_of_ascii "
-{ @leftPad(
-)
-    // a // b
-    @tag( 7
-//x
-/// triple
-)
-u8 BodyLength ,
-    char[ 1
-] chars
-`
-`,
-@tag( 00 )char[ 0]
-    // packet A { u8 x, }
-    Z9_ @lengthOf(
-float) `u8 x,` ,
-}")).
-Eval vm_compute in ("<<<M520>>>" ++ check (runes_of_ascii "options
-{
-matchKey = 42/// triple
-x='0' ;
-// packet A { u8 x, }
-//
-charz
-=
-// packet A { u8 x, }
-// trailing space 
-true  ; } MetaData BodyLength
-{
-uint8
-pack,zchar[ 1]float ,  float32")).
-Eval vm_compute in ("<<<M715>>>" ++ check (runes_of_ascii "// c
-packet i64_ {	char[] calculatedFrom , } packet
-trueish  {@calculatedFrom(
-""a\\"" ) o { i32 falsey@lengthOf( uint8x ),
-} , , } // `tick` ""quote"" 'q'
-options {// c
-Z9_ = ' '//
-}
-")).
-Eval vm_compute in ("<<<M668>>>" ++ check (runes_of_ascii "// c
-packet i64_ {	char[] calculatedFrom , } packet
-trueish  {@calculatedFrom(
-""a\\"" ) o {  falsey@lengthOf( uint8x ),
-} , } // `tick` ""quote"" 'q'
-options {// c
-Z9_ = ' '//
-}
-")).
-Eval vm_compute in ("<<<M1750>>>" ++ check (runes_of_ascii "options {
-    As = false;
-}
-
-root packet calculatedFrom {
-    zchar[255] Z9_,
-}
-
-MetaData metadata {
-    int8 chars,
-    char[] charz `two words`,
-    char[0] rootA,
-}")).
-Eval vm_compute in ("<<<M72>>>" ++ check (runes_of_ascii "packet
-Header//	t
-{ float32
-repeatCount @lengthOf(
+    i16 chars // `tick` ""quote"" 'q'
+`say ""hi""`
+    , // `tick` ""quote"" 'q'
 f32a
-/// triple
+@lengthOf( u ),@lengthOf(lengthOf) repeat
+    zchar[ 1 ] i64_
+`" ++ [28040; 24687; 31867; 22411]%N ++ runes_of_ascii "` , repeat
+u64 string_//
+,
+@lengthOf( // @lengthOf(
+o
+)	@lengthOf(
+    x_y_z ) @rightPad (
+    ' ' ) char[]// @lengthOf(
+i8i8
+    @calculatedFrom(
+""{,}"" // a // b
+)
+`tab	here` , uint32  Logon`line1
+line2` ,  match Pad as leftPad { 42 :
+// " ++ [27880; 37322]%N ++ runes_of_ascii "
+// c
+uint8x
+    [ 65535 ,
+1 ,
+    ""\n""
 // a // b
-) , }options{ As	= true; } packet Pad
-{ @rightPad
-( ' ' ) leftPad
+// " ++ [27880; 37322]%N ++ runes_of_ascii "
+, ""a\""b""
+    ] : // trailing space 
+u128 //x
+,""packet"":i8i8
+,
+    [ ""CRC32"" ] : u128  ,
+} //
+,
+match chars as packetx{ ""x y""
+    :  i8i8
+// packet A { u8 x, }
+//
+""a\\"" // a // b
+:  u128 , ""a\\"" : Pad
+    , [ // `tick` ""quote"" 'q'
+""a\\""
+, 42 ,007
+    ,
+    """ ++ [28040; 24687]%N ++ runes_of_ascii """ ,1 , ""abc"" ] :
+    Pad ,0
+    :
+u8x,
+    00:
+    i64_ , } , msg_type @lengthOf(int )  `line1
+line2`
+    , }root	packet falsey
+    { // trailing space 
+zchar[
+    007
+] /// triple
+o `two words`, @tag(
+    42 )
+    repeat float
+// a // b
+// trailing space 
+len , i16 roots @lengthOf(A
+    ),
+@rightPad	(  )Pad{
+    // packet A { u8 x, }
+    int32 rootA	@calculatedFrom(""1""
+    )
+,repeat int float `" ++ [233]%N ++ runes_of_ascii "`
+,
+zchar[
+    65535 ] i8i8 @calculatedFrom(
+    ""a\\""
+) ,
+},@calculatedFrom( ""1"" ) i8i8@lengthOf( x )//
+,
+@tag( 7
+)
+    match T as repeatCount { ""a\\"" : o [
+// @lengthOf(
+// " ++ [27880; 37322]%N ++ runes_of_ascii "
+"""" , ""it's""
+    //	t
+    ] :i64_ , 10
+    :trueish
+, },
+    Z9_
+    , @calculatedFrom( """" )
+@leftPad ( ' '
+)
+    f32 zchar @lengthOf(charz
+) ,
+    @leftPad(
+// " ++ [27880; 37322]%N ++ runes_of_ascii "
+// @lengthOf(
+) falsey
+@lengthOf(
+BodyLength
+) , } packet leftPad { u8
+    msg_type @calculatedFrom( ""packet"" ) `u8 x,`, asx //	t
+,stringy
+    @calculatedFrom( ""// no comment"" /// triple
+)	`` , Header @calculatedFrom(
+    ""CRC32"" )`line1
+line2`,zchar[ 00 ]Packet
+    @calculatedFrom( // a // b
+""abc"" )
+`say ""hi""` ,
+    } options
+    //	t
+    {Z9_	=
+    char[
+7] ; roots = ' ' ; u = true; o
+// " ++ [27880; 37322]%N ++ runes_of_ascii "
+//
+= 0123456789 } root
+    packet Header
+    // packet A { u8 x, }
+    {
+@tag(
+0 ) @leftPad (
+    '\x00' ) @tag(
+1// c
+) u8x
+//x
+//
+`` // c
+,}
+// " ++ [128512]%N ++ runes_of_ascii " emoji
+")).
+Eval vm_compute in ("<<<M1085>>>" ++ check (runes_of_ascii "packet calculatedFrom {  o
+,char[ 65535
+] lengthOf
+`crlf
+line`
+,
+/// triple
+// " ++ [27880; 37322]%N ++ runes_of_ascii "
+a1 @calculatedFrom( ""abc"" )	,
+    // " ++ [128512]%N ++ runes_of_ascii " emoji
+    @leftPad
+(
+    // packet A { u8 x, }
+    )int32
+crc /// triple
+@lengthOf(
+    falsey ) ,	char[] pack
+    @calculatedFrom( ""\" ++ [233]%N ++ runes_of_ascii """  )
+, // packet A { u8 x, }
+repeat calculatedFrom{ repeat float64 calculatedFrom
+    , } , chars
+    {  i32  _x , // @lengthOf(
+char[] roots //
+, } ,@leftPad ( // packet A { u8 x, }
+' '
+    ) @tag( 7
+) match
+falsey // a // b
+as x
+//x
+// trailing space 
+{ [ ""// no comment"" ,
+""CRC32"" , 4294967296 , ""// no comment"" ,
+42
+,
+    // " ++ [27880; 37322]%N ++ runes_of_ascii "
+    ""{,}""	] :
+    options1,} ,
+    repeat
+crc ,
+match asx
+    as metadata	{
+    // `tick` ""quote"" 'q'
+    [ 42 ] :
+leftPad
+,
+    [ 65535]  : tag ,255 : matchKey
+, ""packet"" : repeatCount  , ""\" ++ [233]%N ++ runes_of_ascii """ : roots
+    , [""packet"" , 3 ]: string_ , }
+// " ++ [128512]%N ++ runes_of_ascii " emoji
+// " ++ [128512]%N ++ runes_of_ascii " emoji
+, }
+packet zchar {
+    }packet f32a{ Packet@calculatedFrom(  ""a\\""
+// a // b
+// 50% %s
+),	BodyLength@lengthOf( MetaDataX// packet A { u8 x, }
+) `crlf
+line`,// c
+match _x as
+repeatCount  {
+[ 0123456789
+,""x y""
+]: BodyLength /// triple
+0 : chars
+    ,
+""" ++ [233]%N ++ runes_of_ascii "t" ++ [233]%N ++ runes_of_ascii """ : a1 , [ ""x y""	,
+    """ ++ [28040; 24687]%N ++ runes_of_ascii """ ]
+: Header
+, },
+@lengthOf( msg_type
+)
+    u32 x_y_z `
+` , } packet
+    a1
+{ i32 MetaDataX,
+    @calculatedFrom( ""\" ++ [233]%N ++ runes_of_ascii """
+// c
+// @lengthOf(
+)
+match MetaDataX
+    // a // b
+    as
+    Foo{
+""a	b"":leftPad ,	""// no comment""
+:zchar [
+""// no comment""] : u8x , [ ""it's"" ,
+    4294967296,
+7 , ""it's"" ] // trailing space 
+:
+    // 50% %s
+    o , 007	: o
+, }
+,
+    @calculatedFrom(// a // b
+""`tick`"") @tag(00 ) @calculatedFrom(
+    ""CRC32""  )
+// packet A { u8 x, }
+// @lengthOf(
+u32 f32a `say ""hi""` , // @lengthOf(
+}")).
+Eval vm_compute in ("<<<M221>>>" ++ check (runes_of_ascii "MetaData
+repeatCount { } MetaData crc  { } packet lengthOf { // 50% %s
+@leftPad (
+    ' ' ) @calculatedFrom( ""\n"" ) string u128 @lengthOf( _x ) // @lengthOf(
+, @tag( 00) u32
+i8i8 , Packet
+    // c
+    o ,
+    @tag( // a // b
+0 )
+    repeat// 50% %s
+char[  7] u8x `
+`
+,
+u128 options1 , @lengthOf( asx)@calculatedFrom(
+    """ ++ [128512]%N ++ runes_of_ascii """
+) // 50% %s
+@lengthOf(	MetaDataX ) MetaDataX
+`say ""hi""`
+,
+// `tick` ""quote"" 'q'
+// `tick` ""quote"" 'q'
+repeat	roots `a\`, }	packet	A {
+    i32 int@calculatedFrom( ""a\\""
+) `line1
+line2` ,
+    // `tick` ""quote"" 'q'
+    uint8
+Header	`it's`
+    ,  falsey @calculatedFrom(
+    ""a\\"" ) //x
+,
+@calculatedFrom(
+""x y"" )  Z9_ @lengthOf(
+crc
+) , @lengthOf(// 50% %s
+stringy) uint32 leftPad, match  calculatedFrom
+as matchKey{ [007 ,
+0
+    , 65535,
+00
+    ,42
+, 0 // packet A { u8 x, }
+, 42
+    // `tick` ""quote"" 'q'
+    ] // " ++ [27880; 37322]%N ++ runes_of_ascii "
+:
+stringy
+,
+} , //
+@rightPad  ( '\x00'
+    // " ++ [128512]%N ++ runes_of_ascii " emoji
+    ) len{
+    match Packet
+as  u128 { [1] :
+    crc  ,} ,}, char charz,falsey  {
+int8 Foo
+@lengthOf( Packet )
+, Pad @calculatedFrom(""{,}"") `say ""hi""`
+,
+    }
+,	zchar[
+    10]
+// packet A { u8 x, }
+//	t
+zchar
+@calculatedFrom(
+    // trailing space 
+    ""a\\"" ) `two words`,	} packet Pad{ @rightPad( '0'
+// @lengthOf(
+// " ++ [27880; 37322]%N ++ runes_of_ascii "
+)
+repeat falsey
+    string_ `// not a comment` ,  As , repeat
+// @lengthOf(
+// " ++ [128512]%N ++ runes_of_ascii " emoji
+o chars `doc` , @rightPad//
+(
+'0' ) Z9_{ f64 Z9_, T/// triple
+charz `line1
+line2` , x, u32 u ``,
+}
+    ,
+i64_ , }
+")).
+Eval vm_compute in ("<<<M568>>>" ++ check (runes_of_ascii "root packet crc{
+string
+u`two words` , @leftPad(
+)
+//	t
+// " ++ [128512]%N ++ runes_of_ascii " emoji
+zchar { int8 f32a
+    //x
+    `100% of %d` ,} // @lengthOf(
+, options1{ string roots @calculatedFrom( """ ++ [233]%N ++ runes_of_ascii "t" ++ [233]%N ++ runes_of_ascii """ )
+    `100% of %d`  , } , Header Packet
+// a // b
+/// triple
+, @calculatedFrom(
+    """ ++ [233]%N ++ runes_of_ascii "t" ++ [233]%N ++ runes_of_ascii """ ) Z9_{ float {char[] pack@calculatedFrom(
+""a\""b"" ) `" ++ [28040; 24687; 31867; 22411]%N ++ runes_of_ascii "` ,match Pad
+    as
+body  {	0123456789
+//	t
+// a // b
+: body// " ++ [128512]%N ++ runes_of_ascii " emoji
+, [ //	t
+""it's"" , ""x y"", """ ++ [128512]%N ++ runes_of_ascii """	, 65535
+    , """" ] : crc,""abc"": msg_type ,""" ++ [233]%N ++ runes_of_ascii "t" ++ [233]%N ++ runes_of_ascii """: lengthOf ,
+3
+    : Logon ,[ ""a\\""
+//x
+//
+] :u128
+    ,}
+    // 50% %s
+    ,
+} ,  MetaDataX { rootA{ repeat char[ 1 ] Pad ,
+}
+,
+}
+// " ++ [27880; 37322]%N ++ runes_of_ascii "
+// trailing space 
+, x , } ,repeat chars
+, u16 As, @lengthOf(float ) repeat
+A
+    { repeat	Pad{ repeat matchKey `
+` , // c
+} ,
+}, } root
+// a // b
+/// triple
+packet options1
+    {
+u32 A// @lengthOf(
+@calculatedFrom( ""1"" ) , Foo {match
+metadata as
+packetx{ ""1""
+: i64_
+,
+    0:lengthOf	,  0123456789 : pack
+,
+""`tick`""
+    : len
+""a\""b""// @lengthOf(
+:asx ,
+    }
+    , //	t
+} , }
+    MetaData options1{ }	MetaData len
+    // @lengthOf(
+    { f32 Header ,
+    // `tick` ""quote"" 'q'
+    }
+packet  x_y_z {@tag(
+    3 ) zchar[0] f32a `doc` // trailing space 
+, @rightPad ( '0') //x
+string options1 ,
+    repeat A {
+char[ 10 ]
+    _x `tab	here` , } ,matchKey f32a ,} // " ++ [128512]%N ++ runes_of_ascii " emoji")).
+Eval vm_compute in ("<<<M1074>>>" ++ check (runes_of_ascii "packet i64_	{@tag(
+    1  )
+@calculatedFrom( ""`tick`"" ) @lengthOf( f32a) match zchar as u
+// @lengthOf(
+// packet A { u8 x, }
+{
+0123456789: leftPad
+""\" ++ [233]%N ++ runes_of_ascii """: _x ,
+7: MetaDataX , // `tick` ""quote"" 'q'
+[ 4294967296	] : stringy , 7 : uint8x } , @leftPad (	)string
+    Foo	@lengthOf(MetaDataX) `two words` ,
+match calculatedFrom
+as A{[ 255  ,
+    7 , 1
+,// a // b
+1 , 42 , 007
+    ,007	]
+: A, [ ""a\\"", ""it's""
+,""1"" ,00 , """ ++ [128512]%N ++ runes_of_ascii """  , ""{,}"" , 42] :
+calculatedFrom, ""it's"":f32a ,	},  repeat  char[] i8i8 , }
+packet lengthOf { repeat
+u8x	,char[] Z9_,int64 options1 @calculatedFrom("""" )
+    `// not a comment` ,match
+tag as roots {[ //
+""abc"" ]:options1
+65535 : o
+, ""// no comment"" :
+f32a
+, //x
+""packet""
+    : uint8x,} ,
+}
+    packet u8x { repeat int64// `tick` ""quote"" 'q'
+x,	zchar[65535]
+float	`// not a comment` ,
+    i16 uint8x
+, zchar[
+10]
+uint8x
+    ,	@calculatedFrom( ""abc""	)
+    repeat x
+{trueish
+`it's` ,
+},  @calculatedFrom(
+    ""a\""b""
+) o `two words` , repeat f64  body
+`it's` ,
+    @lengthOf( body// trailing space 
+)char[
+0123456789
+    // `tick` ""quote"" 'q'
+    ] f32a @calculatedFrom( ""1"")
+    ,repeat uint8x o // packet A { u8 x, }
+`{ , }` , } MetaData	falsey{ f32a float	, }")).
+Eval vm_compute in ("<<<M810>>>" ++ check (runes_of_ascii "packet metadata
+    { float32 len@calculatedFrom(""\n""
+    )`doc`	,	}options { u128 = char[ 65535 ]} root packet stringy { @lengthOf( _x ) // @lengthOf(
+uint64 pack
+// packet A { u8 x, }
+// trailing space 
+@calculatedFrom( """ ++ [28040; 24687]%N ++ runes_of_ascii """ ) , repeat x
+    //
+    charz`u8 x,`, char[]
+As `{ , }` ,
+    body , match tag as zchar { 10 :
+lengthOf,	10	: i64_ , 65535:
+len
+    ,
+1
+:msg_type, ""\n""// `tick` ""quote"" 'q'
+: Foo ,10 : zchar
+    , }
+    , repeat lengthOf{ int64
+lengthOf
+    @calculatedFrom(	""packet""	)
+    // " ++ [128512]%N ++ runes_of_ascii " emoji
+    , repeat	calculatedFrom A , // trailing space 
+repeat
+    //x
+    char uint8x
+,As
+{ stringy  `" ++ [233]%N ++ runes_of_ascii "`	, } , } ,
+    // " ++ [128512]%N ++ runes_of_ascii " emoji
+    @tag( // c
+0123456789)	@rightPad (
+' ' )repeat string_ {
+    int32 stringy
+    , } ,
+    u8x
+    @calculatedFrom( // " ++ [27880; 37322]%N ++ runes_of_ascii "
+""packet"" /// triple
+) // packet A { u8 x, }
+,
+/// triple
+// 50% %s
+} packet len
+    { @lengthOf(	lengthOf )
+//
+// packet A { u8 x, }
+repeat leftPad,len @lengthOf( i64_
+) `two words` ,	match
+rootA as i8i8
+{ ""packet"" :f32a
+    ,[""it's""// trailing space 
+] :Packet/// triple
+,[	""a\\""]
+:uint8x ,0123456789 : a1 , ""CRC32""  : Logon ,
+    } , } //	t")).
+Eval vm_compute in ("<<<M4142>>>" ++ check (runes_of_ascii "root packet MetaDataX {
+    @tag(1)
+    @leftPad('0')
+    char i8i8 @calculatedFrom(""\n""),
+}
+
+root packet T {
+    repeat o {
+        match f32a as a1 {
+            [""x y"", 00, 65535, ""\n""] : packetx,
+            ""`tick`"" : float,
+            65535 : Packet,
+            ""{,}"" : repeatCount,
+        },
+        repeat u128,
+    },
+    @tag(0)
+    //	t
+    char[7] BodyLength,
+    f32a `doc`,
+    char[] roots,
+    repeat msg_type,
+    @rightPad()
+    char[] x,
+    body @lengthOf(zchar),
+    matchKey {
+        char[7] falsey,
+    },
+}
+
+packet i8i8 {
+    @tag(007)
+    repeat char[] Packet,// a // b
+    @lengthOf(MetaDataX)
+    @calculatedFrom("""")
+    @tag(0123456789)
+    f32 As,
+    string_ crc,
+    int16 stringy,
+    @lengthOf(Packet)
+    roots @lengthOf(falsey),
+    string rootA,// packet A { u8 x, }
+    char[] string_ `// not a comment`,
+    trueish {
+        uint64 zchar @calculatedFrom(""abc"") `// not a comment`,
+    },// c
+    @lengthOf(Pad)
+    zchar[1] _x `
+    `,
+    // packet A { u8 x, }
+    /// triple
+    string o `two words`,
+}")).
+Eval vm_compute in ("<<<M301>>>" ++ check (runes_of_ascii "root packet u128 { metadata zchar, } MetaData Packet
+{u64 x_y_z `it's` ,}options
+    {  } packet o
+{
+    repeat // a // b
+int64 lengthOf ,
+string uint8x // 50% %s
+, repeat uint64
+    trueish
+`a\` ,@leftPad	( '0' )char[] i8i8 @calculatedFrom(	""CRC32"" )
+,@calculatedFrom(""" ++ [128512]%N ++ runes_of_ascii """ )repeat
+    zchar  {  int	, repeat float32// trailing space 
+stringy , stringy  ,  match// c
+packetx as x_y_z {4294967296
+    : rootA [ 7
+    ,3 ] :
+A ,
+    """ ++ [233]%N ++ runes_of_ascii "t" ++ [233]%N ++ runes_of_ascii """ :
+zchar , [1, ""packet""
+// packet A { u8 x, }
+// " ++ [27880; 37322]%N ++ runes_of_ascii "
+,
+    // trailing space 
+    10	, """ ++ [28040; 24687]%N ++ runes_of_ascii """ , ""a	b""  ]:  a1,
+    0123456789 :tag
+    // `tick` ""quote"" 'q'
+    , }
+    , } , @tag(
+// c
+/// triple
+00 ) int16 BodyLength
+@lengthOf(
+A
+// a // b
+//	t
+) ,	u8 leftPad @lengthOf(  asx) `crlf
+line` ,@leftPad  (
+) int32 lengthOf @calculatedFrom(""a\""b""
+) `tab	here`
+, @lengthOf( i8i8  ) repeat uint64 trueish , @calculatedFrom( ""\n"" ) repeat matchKey
+{ char[ 7]falsey `tab	here` // " ++ [27880; 37322]%N ++ runes_of_ascii "
+,} ,
+} MetaData calculatedFrom// `tick` ""quote"" 'q'
+{}")).
+Eval vm_compute in ("<<<M1159>>>" ++ check (runes_of_ascii "// @lengthOf(
+MetaData pack{char[
+    00
+// " ++ [27880; 37322]%N ++ runes_of_ascii "
+//x
+]u8x  , }
+options{u8x
+// @lengthOf(
+//
+=
+    zchar[ 3	] lengthOf
+    =
+//
+// packet A { u8 x, }
+10 ; asx = char[ 1 ]
+repeatCount// c
+=
+false ; lengthOf//x
+=  1 } options // @lengthOf(
+{	options1
+= uint16 // @lengthOf(
+leftPad=
+    ""a	b""	;
+    _x
+= '\x00' ; u128=
+    '\x00'
+;
+} packet
+// a // b
+// `tick` ""quote"" 'q'
+metadata// trailing space 
+{ body
+    { pack@calculatedFrom( ""it's"" ),} , @rightPad ('\x00'
+// " ++ [128512]%N ++ runes_of_ascii " emoji
+// 50% %s
+) @calculatedFrom(""" ++ [28040; 24687]%N ++ runes_of_ascii """ )  As `it's`
+// 50% %s
+//	t
+,pack
+@lengthOf(  options1
+),
+@lengthOf(i8i8
+) @calculatedFrom( ""CRC32"") @lengthOf(
+tag )
+    // c
+    repeat u { match // c
+string_ as u8x {	3 : leftPad, ""x y""
+    : calculatedFrom
+    , ""CRC32"" : A , ""x y"":
+    zchar 0123456789 // @lengthOf(
+: o ,
+//
+// @lengthOf(
+[ ""it's"" ]
+: u ,
+// @lengthOf(
+//
+},i16 A	,
+    len crc
+    , }
+    // " ++ [27880; 37322]%N ++ runes_of_ascii "
+    ,
+// `tick` ""quote"" 'q'
+// @lengthOf(
+}
+")).
+Eval vm_compute in ("<<<M4499>>>" ++ check (runes_of_ascii "  packet
+    o
+{
+
+@lengthOf(metadata
+
+)
+	match repeatCount  //	t
+  	as repeatCount {
+
+    """ ++ [233]%N ++ runes_of_ascii "t" ++ [233]%N ++ runes_of_ascii """
+
+:  options1 
+	// " ++ [27880; 37322]%N ++ runes_of_ascii "
+// `tick` ""quote"" 'q'
+	} ,
+@calculatedFrom(""abc""
+
+)@lengthOf(  string_
+    )  @leftPad
+
+(  ' '// c
+)
+match
+    u128
+
+as
+calculatedFrom { 255	:  // " ++ [27880; 37322]%N ++ runes_of_ascii "
+	a1 
+""packet"" : BodyLength	,  
+  // " ++ [27880; 37322]%N ++ runes_of_ascii "
+  //x
+  """"  : Pad ,  [ ""CRC32""
+,
+3// a // b
+
+,65535
+
+    , 1 
+,
+255,  
+  // a // b
+	// 50% %s
+  ""packet""
+	, ""\" ++ [233]%N ++ runes_of_ascii """
+,
+
+""a	b""  ] :  
+      // a // b
+  // @lengthOf(
+	len
+	,
+7
+:
+	asx  // " ++ [27880; 37322]%N ++ runes_of_ascii "
+	,
+
+255 :crc
+,
+    } , 
+} MetaData  stringy
+    // trailing space 
+{  }	// @lengthOf(
+	root 
+	    // " ++ [128512]%N ++ runes_of_ascii " emoji
+    packet
+metadata 
+{@calculatedFrom(
+	"""")string
+	calculatedFrom, Pad 
+@calculatedFrom(  // @lengthOf(
+	""" ++ [128512]%N ++ runes_of_ascii """ ) 
+// `tick` ""quote"" 'q'
+		// " ++ [27880; 37322]%N ++ runes_of_ascii "
+, u64 
+roots
+	,char[ 255
+    ] 
+    // 50% %s
+// " ++ [128512]%N ++ runes_of_ascii " emoji
+u@calculatedFrom(
+    ""// no comment""	) ,  } 
+    //	t
+")).
+Eval vm_compute in ("<<<M1259>>>" ++ check (runes_of_ascii "root packet tag {  repeat string charz
+    `crlf
+line`, }
+    MetaData  roots {// packet A { u8 x, }
+char[4294967296
+]
+    x_y_z `100% of %d`
+    ,  }
+MetaData
+crc { // " ++ [27880; 37322]%N ++ runes_of_ascii "
+o A ,	leftPad u , Header
+    Z9_
+    ,string calculatedFrom
+    ,char[]	int , // " ++ [27880; 37322]%N ++ runes_of_ascii "
+} // a // b
+MetaData uint8x
+    {
+body Packet
+,
+    i32 i8i8 ,
+uint8
+Z9_,
+    string chars ,
+zchar[ 00
+]
+roots `u8 x,`, int32
+    Foo ,} root packet
+zchar {
+    //	t
+    @calculatedFrom(""packet""
+    ) match
+a1 as//	t
+T {""`tick`""
+    //
+    : // a // b
+repeatCount
+, [""packet"" // 50% %s
+,4294967296
+    ,
+    //x
+    ""\n"" ,
+3 , ""\n"" ,
+""CRC32"" ,""CRC32"" , """ ++ [28040; 24687]%N ++ runes_of_ascii """  ] : BodyLength ,
+    [ """ ++ [128512]%N ++ runes_of_ascii """ ]
+    : x_y_z
+    ,[ """ ++ [233]%N ++ runes_of_ascii "t" ++ [233]%N ++ runes_of_ascii """
+, ""a	b""
+    ] :
+    // a // b
+    uint8x ,} ,int16 falsey @calculatedFrom(""x y"" )/// triple
+,
+    match
+    lengthOf  as Z9_ { 00: // a // b
+Header ,	}
     , }
 ")).
-Eval vm_compute in ("<<<M1647>>>" ++ check (runes_of_ascii "packet A {
-    match k as n {
-        [
-            ""a"", 22, ""c c"", 4, ""e"",
-            66, ""g"", 8, ""i""
-        ] : B,
-        2 : C,
-    },
-}")).
-Eval vm_compute in ("<<<M1359>>>" ++ check (runes_of_ascii "options {
-    LittleEndian = true;
-}
-packet B {
-    u8 a,
-    string s,
-}
-root packet P {
-    u16 L @lengthOf(B),
-    B,
-    u8 t,
-}
-")).
-Eval vm_compute in ("<<<M638>>>" ++ check (runes_of_ascii "MetaData
-    // trailing space 
-    matchKey
-{ u64 chars // a // b
-,char[] lengthOf `// not a comment`
-    , //	t
-@lengthOf(")).
-Eval vm_compute in ("<<<M148>>>" ++ check (runes_of_ascii "packet i8i8 //x
-{int16 // trailing space 
-stringy // " ++ [128512]%N ++ runes_of_ascii " emoji
-@calculatedFrom(
-""// no comment"" ),
-} packet
-_x {
-    }
-")).
-Eval vm_compute in ("<<<M656>>>" ++ check (runes_of_ascii "MetaData
-    // trailing space 
-    matchKey
-<{ u64 chars // a // b
-,char[] lengthOf `// not a comment`
-    , //	t
-}")).
-Eval vm_compute in ("<<<M631>>>" ++ check (runes_of_ascii "MetaData
-    // trailing space 
-    matchKey
-{ u64 chars // a // b
-,char[] lengthOf `// not a comment`
-     //	t
-}")).
-Eval vm_compute in ("<<<M1637>>>" ++ check (runes_of_ascii "// c
-	  packet Logon {@tag( 42 
-)@rightPad 
-( 
-' ' )	@leftPad ( 
-)repeat
-trueish
-
-    {
-	string T
+Eval vm_compute in ("<<<M398>>>" ++ check (runes_of_ascii "options
+    { metadata =false
+trueish  = char[] ; u8x// packet A { u8 x, }
+= false ;} packet MetaDataX {f64 // `tick` ""quote"" 'q'
+_x @lengthOf(//x
+T
+), Z9_ { x @calculatedFrom(""x y"" ) , } ,
+u8 i8i8 @lengthOf(Z9_ ) `two words`	, @tag( 007 ) string Z9_ @calculatedFrom(""{,}""  ) `two words` // `tick` ""quote"" 'q'
 ,
+// 50% %s
+// `tick` ""quote"" 'q'
+@leftPad ('\x00')@lengthOf( falsey
+    )  @lengthOf(  Pad)
+    // `tick` ""quote"" 'q'
+    zchar[ 00 ] msg_type @lengthOf( asx )`say ""hi""`
+    ,	match
+string_ as u
+    {42 :
+pack , ""it's"" :trueish, 7 // c
+: rootA , """"	: falsey ,}
+    , repeat	u8 a1 , len `line1
+line2` //x
+,
+    int32
+Z9_@lengthOf(int )
+    ,repeat charz	{ match
+chars as T {
+    ""// no comment"" :	float
+,42//	t
+:string_ ,	}, }, } MetaData
+msg_type{
+    // @lengthOf(
+    x trueish
+, }
+")).
+Eval vm_compute in ("<<<M4437>>>" ++ check (runes_of_ascii "packet i64_ {
+    char[65535] _x,
+    Logon @lengthOf(roots),
+    char[7] len,
+    @calculatedFrom(""packet"")
+    @tag(00)
+    match zchar as leftPad {
+        255 : MetaDataX,
+        """" : x,
+        [0123456789, ""x y""] : _x,
+    },
+    uint64 chars @lengthOf(roots),
+    @calculatedFrom(""it's"")
+    @leftPad()
+    @lengthOf(leftPad)
+    match int as zchar {
+        [4294967296] : len,
+        1 : _x,
+        255 : A,
+    },
+    @lengthOf(int)
+    char[] rootA,
+    repeat _x _x `{ , }`,
+    // @lengthOf(
+    @lengthOf(Z9_)
+    float64 string_ @lengthOf(crc),
+    zchar[0] T `u8 x,`,
 }
 
+root packet x {
+    T,
+}
+
+MetaData calculatedFrom {
+    char[] stringy,
+}
+
+options {
+    tag = ""// no comment""
+    Packet = zchar[7];
+    // a // b
+    // a // b
+    f32a = '0';
+}")).
+Eval vm_compute in ("<<<M661>>>" ++ check (runes_of_ascii "packet x {	repeat packetx `
+`
+, Pad @calculatedFrom(	""\" ++ [233]%N ++ runes_of_ascii """ ), @lengthOf(
+    falsey )
+repeat u64 o , @tag(
+    0123456789 ) Logon
+    {match
+A as u
+{ [ //x
+1
+,""" ++ [233]%N ++ runes_of_ascii "t" ++ [233]%N ++ runes_of_ascii """ ,4294967296 , ""a	b"", 42 , """ ++ [233]%N ++ runes_of_ascii "t" ++ [233]%N ++ runes_of_ascii """,
+// @lengthOf(
+// " ++ [27880; 37322]%N ++ runes_of_ascii "
+""" ++ [233]%N ++ runes_of_ascii "t" ++ [233]%N ++ runes_of_ascii """ ,
+    """ ++ [28040; 24687]%N ++ runes_of_ascii """ ]:crc// trailing space 
+, },  char[ 42] metadata `{ , }` ,falsey, BodyLength
+    `crlf
+line`	, }
+, @tag( 65535)
+    repeat zchar[
+// trailing space 
+// " ++ [128512]%N ++ runes_of_ascii " emoji
+1 ]
+Packet ,
+@lengthOf(_x ) uint64	o
+,}
+// 50% %s
+//
+options{
+    asx= float64 ; } packet i8i8{ /// triple
+@calculatedFrom( ""`tick`""
+    )// a // b
+body {
+    zchar[ 0 ]  BodyLength `doc`
+    ,
+u
+`
+` , } , }
+    MetaData chars { char[42 ]
+o
+, // " ++ [27880; 37322]%N ++ runes_of_ascii "
+string_ As  `" ++ [233]%N ++ runes_of_ascii "`
+, }
+MetaData Header
+    { i64 matchKey ,
+    zchar[ 7 ] len, }
+
+")).
+Eval vm_compute in ("<<<M3251>>>" ++ check (runes_of_ascii "// top
+root // c0
+packet // c1
+msg_type // c2
+{ // c3
+i64 // c4
+options1 // c5
+, // c6
+@lengthOf( // c7
+f32a // c8
+) // c9
+repeat // c10
+uint16 // c11
+Foo // c12
+, // c13
+@calculatedFrom( // c14
+""x y"" // c15
+) // c16
+repeat // c17
+int64 // c18
+pack // c19
+, // c20
+@leftPad // c21
+( // c22
+' ' // c23
+) // c24
+uint8 // c25
+Foo // c26
+, // c27
+} // c28
+packet // c29
+rootA // c30
+{ // c31
+f32a // c32
+x // c33
+`" ++ [28040; 24687; 31867; 22411]%N ++ runes_of_ascii "` // c34
+, // c35
+char // c36
+asx // c37
+@lengthOf( // c38
+falsey // c39
+) // c40
+`` // c41
+, // c42
+uint16 // c43
+chars // c44
+, // c45
+@tag( // c46
+0 // c47
+) // c48
+string // c49
+_x // c50
+@calculatedFrom( // c51
+""abc"" // c52
+) // c53
+`100% of %d` // c54
+, // c55
+} // c56
+")).
+Eval vm_compute in ("<<<M771>>>" ++ check (runes_of_ascii "options	{ } options
+    {
+    A
+    = ' ' ;
+    } options	{
+    // trailing space 
+    chars
+= ' '
+// c
+// packet A { u8 x, }
+i64_
+=
+    //x
+    ' ' chars = string	} // 50% %s
+packet msg_type	{
+    int32 leftPad
+    `say ""hi""` , @rightPad
+(
+' ')
+@lengthOf(o // @lengthOf(
+)@calculatedFrom( ""abc"" ) f64 zchar @calculatedFrom( ""it's"" )
+    `crlf
+line`
+,leftPad {	match
+stringy
+    as  f32a{ [ 7	,
+    3 ,42
+    , """ ++ [128512]%N ++ runes_of_ascii """ ,
+""{,}"" ] : f32a , 4294967296 : int // trailing space 
+,
+    1 :string_ , }	, match matchKey as i8i8 { [ //
+1 ,
+""`tick`""] : u8x  ,
+    007 :// `tick` ""quote"" 'q'
+_x
+    , [
+    0123456789]: _x // c
+, }, }, f64
+Pad
+    @lengthOf( trueish) ,  }
+")).
+Eval vm_compute in ("<<<M1255>>>" ++ check (runes_of_ascii "MetaData
+repeatCount{  int16
+f32a , uint16 lengthOf,
+zchar[255 ] leftPad , charz msg_type // @lengthOf(
+,
+    lengthOf msg_type , } root // @lengthOf(
+packet body
+    {
+repeat uint16 A `two words` , @lengthOf(
+    u128
+)
+    char[10
+] body @lengthOf(
+    options1) , body @calculatedFrom( //x
+""abc""
+    ) , // `tick` ""quote"" 'q'
+string zchar
+, o
+uint8x ,@calculatedFrom( """ ++ [128512]%N ++ runes_of_ascii """ ) @lengthOf( int)  @tag(
+1 ) repeat int16// `tick` ""quote"" 'q'
+Logon`u8 x,` ,repeat//x
+char[] stringy `two words`
+,  uint16 calculatedFrom`{ , }`
+, } MetaData u128{ int32 i8i8 `it's`, float32 u8x`line1
+line2`// " ++ [27880; 37322]%N ++ runes_of_ascii "
+, i16 Packet,
+uint8 u	, int8 Logon , }
+
+")).
+Eval vm_compute in ("<<<M244>>>" ++ check (runes_of_ascii "MetaData
+i8i8 { u16
+string_ ,
+char[] x `it's`,char[ 00
+    ] charz `line1
+line2` ,
+// trailing space 
+// @lengthOf(
+packetx rootA
+`crlf
+line`
+    , }packet
+    crc //
+{ // packet A { u8 x, }
+u64 len `// not a comment`
+    ,	@rightPad  ( )
+i32 Pad @lengthOf(
+    msg_type)
+    ,
+@leftPad
+(
+' '
+    )
+@tag( 00)@leftPad(// packet A { u8 x, }
+'\x00'	) float64
+    // @lengthOf(
+    Packet ,  repeat roots //x
+, match int as msg_type { 0123456789 :o, 42 : o, ""// no comment""
+: o
+    , },	} options {x_y_z =	string
+    zchar =
+    zchar[ 255
+] ; x_y_z
+    = // trailing space 
+uint32 ; } options { }
+
+")).
+Eval vm_compute in ("<<<M5>>>" ++ check (runes_of_ascii "  MetaData  options1 { }	options{ }options { options1	=
+    '\x00' // packet A { u8 x, }
+}//x
+root packet	packetx
+{ @rightPad (
+    '\x00' ) asx leftPad  ,repeat Foo MetaDataX `// not a comment`
+    , @lengthOf( u128 ) zchar[
+3 ]//x
+BodyLength  @lengthOf(metadata) ,
+uint16
+    // " ++ [128512]%N ++ runes_of_ascii " emoji
+    matchKey `
+`
+    , rootA u8x `// not a comment` // a // b
+, } root packet Logon
+    { f32a repeatCount `line1
+line2`
+, @calculatedFrom(
+""// no comment"" )
+u16 len @calculatedFrom( // @lengthOf(
+""it's"" /// triple
+)  , @rightPad( ' ' ) MetaDataX
+,zchar[00 ]
+metadata
+    `doc`
+, }")).
+Eval vm_compute in ("<<<M580>>>" ++ check (runes_of_ascii "packet o	{match
+roots
+as
+    chars{
+    """ ++ [28040; 24687]%N ++ runes_of_ascii """ : len , } , }packet
+chars { repeat
+float64
+options1 , BodyLength
+    // a // b
+    {Pad @lengthOf(Foo ) `" ++ [233]%N ++ runes_of_ascii "` ,// `tick` ""quote"" 'q'
+repeat uint16
+lengthOf`tab	here` // 50% %s
+, } ,
+uint8 leftPad ,
+uint8	pack	`a\`,
+crc ,@tag(
+    10)
+// trailing space 
+//	t
+char[]
+    o`say ""hi""` // `tick` ""quote"" 'q'
+, @calculatedFrom( ""a\""b"") // " ++ [27880; 37322]%N ++ runes_of_ascii "
+u128 @calculatedFrom( ""it's"" ) `" ++ [28040; 24687; 31867; 22411]%N ++ runes_of_ascii "`, tag
+, } MetaData
+string_ {int8 zchar ,	A
+stringy
+    ,
+    A u8x , BodyLength o,
+    /// triple
+    Foo chars  `line1
+line2`
 , }
 
 ")).
-Eval vm_compute in ("<<<M4>>>" ++ check (runes_of_ascii "packet // a // b
-tag {
-    char[ 7]
-body
-@calculatedFrom( ""a	b"")
-// trailing space 
-// trailing space 
+Eval vm_compute in ("<<<M3683>>>" ++ check (runes_of_ascii "
+MetaData
+i64_{  uint8x  // c
+
+As
+
+`say ""hi""`
+
+,body options1
+`
+`,
+    // packet A { u8 x, }
+
+string_
+    chars, u64 f32a
+
 ,
-}")).
-Eval vm_compute in ("<<<M1365>>>" ++ check (runes_of_ascii "options {
-    LittleEndian = true;
+
+    } root
+packet T
+
+    {
+    @tag(
+
+    00
+
+    ) pack
+
+@calculatedFrom( ""// no comment"" 
+      // `tick` ""quote"" 'q'
+	),lengthOf
+rootA
+`" ++ [233]%N ++ runes_of_ascii "`  ,@lengthOf( 
+i64_ )
+
+repeat
+	falsey
+
+{repeat
+    BodyLength
+    {
+len 
+
+    // packet A { u8 x, }
+  // @lengthOf(
+
+	,	}  // " ++ [128512]%N ++ runes_of_ascii " emoji
+  ,
+
+uint32
+crc @lengthOf(
+stringy
+// @lengthOf(
+  // " ++ [27880; 37322]%N ++ runes_of_ascii "
+  )
+`" ++ [28040; 24687; 31867; 22411]%N ++ runes_of_ascii "`,
+
+}	,  // " ++ [128512]%N ++ runes_of_ascii " emoji
+
+u8
+i64_ @lengthOf(  rootA)
+,	}")).
+Eval vm_compute in ("<<<M4496>>>" ++ check (runes_of_ascii "
+
+  options
+{
+	Header
+='\x00'
+
 }
-root packet P {
-    u16 a,
-    u32 Sum @calculatedFrom(""CRC32""),
+	root
+packet MetaDataX  { char[
+0123456789 ] leftPad
+`tab	here` , @lengthOf(
+    rootA  )
+
+uint8
+	u ``
+,  match
+string_  //
+	  as	Pad 
+{ 255
+: a1
+    , // a // b
+
+  [ 
+// 50% %s
+  4294967296	]	:msg_type
+,
+
+[ 
+3 
+	// c
+	//	t
+	]:  
+  //	t
+
+	u128 
+,
+	255 :
+
+    crc,[  
+  // trailing space 
+	//
+0123456789  ,
+    ""a\""b"" ,""a\""b""	,
+
+"""" 	 // trailing space 
+  , """" ,
+	""CRC32""
+	,""CRC32"" 
+] 
+:  crc 	 // `tick` ""quote"" 'q'
+    , 	 // " ++ [27880; 37322]%N ++ runes_of_ascii "
+	}
+
+    ,  }
+
+packet asx{
+    }
+")).
+Eval vm_compute in ("<<<M974>>>" ++ check (runes_of_ascii "
+MetaData repeatCount
+    // packet A { u8 x, }
+    {
+    string
+lengthOf ,leftPad falsey , string u ,
+// " ++ [128512]%N ++ runes_of_ascii " emoji
+//	t
+zchar[ 42// a // b
+]
+    msg_type, uint8 pack
+`
+`
+,}
+    packet x{
+    repeat	char[255
+// c
+// trailing space 
+]
+    Foo
+    ,
+} packet Header
+{ } // `tick` ""quote"" 'q'
+options { // packet A { u8 x, }
+options1 =false len =  zchar[4294967296 ] i8i8 =
+// packet A { u8 x, }
+// trailing space 
+float32 ;}
+// @lengthOf(
+// `tick` ""quote"" 'q'
+MetaData
+    BodyLength{
 }
 ")).
-Eval vm_compute in ("<<<M1276>>>" ++ check (runes_of_ascii "packet calculatedFrom { @tag( 4294967296 ) u msg_type , char[ 3 ]
-// c
-crc @lengthOf( len ) `u8 x,` , }")).
-Eval vm_compute in ("<<<M1491>>>" ++ check (runes_of_ascii "packet o {
-    @tag(42)
+Eval vm_compute in ("<<<M3550>>>" ++ check (runes_of_ascii "
+options
+
+{ 
+StringPrefixLenType
+=	u8 ;
+    ArrayPrefixLenType= u16 ;
+FixedStringPadChar = 
+'0' ;
+    }	packet Fill{
+	char[6
+] Acct 
+, u64
+
+venue ,
+}  root
+
+packet Logout {char[]	Tail, repeat i8
+	f1 , 
+float64
+    msgKind
+, zchar[
+3
+    ]	Note  ,
+    uint64
+count
+    ,
+
+    @leftPad (
+' ' 
+) char[
+12
+
+] Px,
+
+    u32 OrderId  , u16 
+tag7@lengthOf( Body)
+	,match OrderId as
+Body { [
+35	,  107
+	]	:Fill
+    , }
+	, u32 Ref
+@calculatedFrom(
+""CRC32"" ),} ")).
+Eval vm_compute in ("<<<M475>>>" ++ check (runes_of_ascii "
+packet
+calculatedFrom	{/// triple
+@calculatedFrom(	""" ++ [28040; 24687]%N ++ runes_of_ascii """	) rootA {int16 //	t
+string_
+    , Logon // `tick` ""quote"" 'q'
+MetaDataX, repeat zchar[// trailing space 
+7 ]trueish
+    `say ""hi""`,}, char[00
+]
+    pack `a\` , u32 repeatCount
+// @lengthOf(
+// 50% %s
+,
+    string crc `" ++ [28040; 24687; 31867; 22411]%N ++ runes_of_ascii "`
+    , }options{
+    A =
+    3 /// triple
+zchar
+    // " ++ [128512]%N ++ runes_of_ascii " emoji
+    = ' '; calculatedFrom=""abc"" ; // packet A { u8 x, }
+charz
+    = zchar[ 1];body =
+    int64 }
+")).
+Eval vm_compute in ("<<<M251>>>" ++ check (runes_of_ascii "root packet
+    tag  { repeat string_{lengthOf	{ //	t
+int64 int @lengthOf(  uint8x
+    )
+`
+`
+, // trailing space 
+repeat
+zchar[
+    7 ] u
     // c
-    repeat x {
-        char[0123456789] i64_,
+    , zchar[ 0 //	t
+]
+    BodyLength ,// `tick` ""quote"" 'q'
+}
+, } , repeat u8 Pad
+    `line1
+line2`
+    // 50% %s
+    ,
+// `tick` ""quote"" 'q'
+//x
+@leftPad (' '
+) zchar[4294967296  ]// @lengthOf(
+repeatCount
+    , repeat options1
+{float64 rootA @lengthOf( _x) , } ,
+    } // c")).
+Eval vm_compute in ("<<<M1131>>>" ++ check (runes_of_ascii "options {	string_ = ""a\\"" body = zchar[ 10]int = ""abc"" _x =
+""CRC32""
+//
+// packet A { u8 x, }
+; Header =
+i16 ; } options //x
+{} packet A
+{ @lengthOf( // 50% %s
+i8i8 )zchar[ 00
+]options1 // " ++ [128512]%N ++ runes_of_ascii " emoji
+, @calculatedFrom(	""{,}"" ) pack  Z9_ `{ , }`
+    //
+    ,zchar[ 65535	] _x @calculatedFrom(
+    //
+    ""packet""	)`100% of %d`,
+//x
+// `tick` ""quote"" 'q'
+@rightPad( )
+@calculatedFrom(	""abc"" )
+@tag( 10)uint16 i8i8	, }")).
+Eval vm_compute in ("<<<M3531>>>" ++ check (runes_of_ascii "
+packet
+NewOrder {u32 qty
+
+,}  packet
+Cancel 
+{
+u64 id	,	}  packet Business
+
+{	u8 Kind  ,	match
+
+Kind
+
+as Detail
+    {1
+
+    : 
+NewOrder , 2:
+Cancel
+,
+} ,	}
+    packet  TcpFrame  {
+u8
+T	, match T
+as
+	Body 
+{ 1
+
+    :
+    Business,
+
+}	, }
+    packet	UdpFrame
+{
+
+u8 U	, match	U
+	as Body{
+	1
+: Business ,}, Business
+
+extra
+    , } 
+root
+    packet
+	Wire  {
+
+    TcpFrame
+,
+    UdpFrame,
+	}
+
+")).
+Eval vm_compute in ("<<<M3258>>>" ++ check (runes_of_ascii "// top
+MetaData
+    // c0
+metadata
+    // c1
+{
+    // c2
+}
+    // c3
+MetaData
+    // c4
+rootA
+    // c5
+{
+    // c6
+i8
+    // c7
+i64_
+    // c8
+,
+    // c9
+roots
+    // c10
+options1
+    // c11
+`a\`
+    // c12
+,
+    // c13
+lengthOf
+    // c14
+Header
+    // c15
+,
+    // c16
+Z9_
+    // c17
+Foo
+    // c18
+,
+    // c19
+int16
+    // c20
+BodyLength
+    // c21
+,
+    // c22
+}
+    // c23
+")).
+Eval vm_compute in ("<<<M597>>>" ++ check (runes_of_ascii "
+root packet metadata { char[007] _x `a\` , match
+// " ++ [128512]%N ++ runes_of_ascii " emoji
+/// triple
+_x as Packet{
+[ // a // b
+4294967296,	""a\""b"" ,	""{,}"" , 0 , """" ,
+65535 // trailing space 
+]:
+    options1, [
+    ""abc"" ] :options1 , [
+    // trailing space 
+    ""it's"" , """ ++ [233]%N ++ runes_of_ascii "t" ++ [233]%N ++ runes_of_ascii """ ,""" ++ [233]%N ++ runes_of_ascii "t" ++ [233]%N ++ runes_of_ascii """ ,""a\\""
+] // a // b
+:	len , } ,
+    uint8 Z9_ , As @calculatedFrom(""""
+    ) `" ++ [28040; 24687; 31867; 22411]%N ++ runes_of_ascii "`,// @lengthOf(
+i64 As
+`" ++ [233]%N ++ runes_of_ascii "`, }")).
+Eval vm_compute in ("<<<M569>>>" ++ check (runes_of_ascii "root packet
+// packet A { u8 x, }
+// trailing space 
+f32a
+{ char[ 0123456789	] rootA @calculatedFrom(
+""packet""//
+)
+, float32 tag @lengthOf( metadata )
+    ,	uint32 BodyLength `{ , }` , // @lengthOf(
+Foo @calculatedFrom( ""`tick`"" ) , @rightPad (
+    ' ' ) repeat int16 u  ,} packet T
+    {@lengthOf(int
+    ) Pad	, @leftPad ('\x00' )	int32  roots
+    , }")).
+Eval vm_compute in ("<<<M699>>>" ++ check (runes_of_ascii "MetaData x {i64 /// triple
+Z9_
+    `a\`, //
+char[ 7
+    ] f32a
+`{ , }`
+    , len a1 , u64
+    repeatCount ,
+    string BodyLength , crc
+Pad `tab	here`
+, } packet T
+{char[ 42
+]	repeatCount `line1
+line2`
+,
+    } root packet i64_
+{ @lengthOf( u128
+// `tick` ""quote"" 'q'
+/// triple
+)
+@lengthOf(	As	)
+    @leftPad ( )
+    uint32 f32a ,
+}")).
+Eval vm_compute in ("<<<M3614>>>" ++ check (runes_of_ascii "  MetaData	stringy
+	{ tag  // c
+      Z9_ `{ , }`
+
+    , 
+        // packet A { u8 x, }
+	// trailing space 
+  crc	_x
+
+    `two words` 
+, 
+i64_
+    trueish	`say ""hi""` ,  float32 
+trueish
+	// @lengthOf(
+	// packet A { u8 x, }
+	,  
+      /// triple
+  	char[
+	0123456789 ] 
+tag, uint8
+Packet
+
+    , } MetaData x_y_z  { }")).
+Eval vm_compute in ("<<<M262>>>" ++ check (runes_of_ascii "packet  T{
+repeat float // a // b
+`say ""hi""` , asx asx
+,
+    uint32 Foo ,	repeat string f32a  , // " ++ [128512]%N ++ runes_of_ascii " emoji
+char[ 0123456789 ]
+chars, @tag( 255 ) repeat  packetx int`crlf
+line` , repeat  char[]  _x `two words`/// triple
+,  repeat char[ // " ++ [128512]%N ++ runes_of_ascii " emoji
+255 ] A  ,zchar[
+10 ]	o `doc` ,repeat  uint16 Foo``
+, } //x")).
+Eval vm_compute in ("<<<M669>>>" ++ check (runes_of_ascii "MetaData  MetaDataX { uint16 stringy	, Pad
+Pad
+, MetaDataX falsey `say ""hi""`,
+falsey Z9_ `say ""hi""` , string
+/// triple
+// 50% %s
+Header	,int8 stringy ,
+} root packet calculatedFrom {
+//
+// `tick` ""quote"" 'q'
+} packet
+    int
+    { char[] A , zchar[0
+// 50% %s
+/// triple
+] leftPad `{ , }`
+    ,}
+")).
+Eval vm_compute in ("<<<M112>>>" ++ check (runes_of_ascii "packet MetaDataX// 50% %s
+{ @rightPad
+(
+' ')
+T
+{
+match T as crc // packet A { u8 x, }
+{ ""abc"" :Header
+    ,
+[ 65535,
+7 ] : MetaDataX
+    , // a // b
+0: a1,
+[
+    4294967296 , 7
+,255
+    ,
+    //
+    ""it's"" ] : i8i8 , 0
+: rootA ,} , // c
+} ,  @tag( 007 )
+    char[] _x ,
+repeat o ,}
+")).
+Eval vm_compute in ("<<<M1877>>>" ++ check (runes_of_ascii "packet	packetx { // trailing space 
+x_y_z
+{
+string
+charz charz ,
+string x// @lengthOf(
+`two words`
+    ,  u8x { // `tick` ""quote"" 'q'
+charz `100% of %d` // packet A { u8 x, }
+,}// " ++ [27880; 37322]%N ++ runes_of_ascii "
+,} , }
+    // a // b
+    packet metadata {  @leftPad ( '0') repeat i32 options1 ,u64 uint8x , }
+")).
+Eval vm_compute in ("<<<M1867>>>" ++ check (runes_of_ascii "packet	packetx { // trailing space 
+x_y_z
+{ {
+string
+charz ,
+string x// @lengthOf(
+`two words`
+    ,  u8x { // `tick` ""quote"" 'q'
+charz `100% of %d` // packet A { u8 x, }
+,}// " ++ [27880; 37322]%N ++ runes_of_ascii "
+,} , }
+    // a // b
+    packet metadata {  @leftPad ( '0') repeat i32 options1 ,u64 uint8x , }
+")).
+Eval vm_compute in ("<<<M18>>>" ++ check (runes_of_ascii "options { } packet stringy{@rightPad
+    ( '\x00')chars //x
+@lengthOf( float )
+,	@lengthOf( Packet	) // " ++ [128512]%N ++ runes_of_ascii " emoji
+zchar @calculatedFrom(
+//
+// `tick` ""quote"" 'q'
+""a\""b"" ), @leftPad ( ) x_y_z rootA `100% of %d`,} // trailing space 
+options	{lengthOf ='\x00'	; charz = true ; }
+")).
+Eval vm_compute in ("<<<M1988>>>" ++ check (runes_of_ascii "packet	packetx { // trailing space 
+x_y_z
+{
+string
+charz ,
+string x// @lengthOf(
+`two words`
+    ,  u8x { // `tick` ""quote"" 'q'
+charz `100% of %d` // packet A { u8 x, }
+,}// " ++ [27880; 37322]%N ++ runes_of_ascii "
+,} , }
+    // a // b
+    packet metadata {  @leftPad ( '0'repeat ) i32 options1 ,u64 uint8x , }
+")).
+Eval vm_compute in ("<<<M3766>>>" ++ check (runes_of_ascii "MetaData MetaDataX {
+    uint16 stringy,
+    Pad Pad,
+    MetaDataX falsey `say ""hi""`,
+    falsey Z9_ `say ""hi""`,
+    string Header,
+    int8 stringy,
+}
+
+root packet calculatedFrom {
+    //
+    // `tick` ""quote"" 'q'
+}
+
+packet int {
+    char[] A,
+    zchar[0] leftPad `{ , }`,
+}")).
+Eval vm_compute in ("<<<M1876>>>" ++ check (runes_of_ascii "packet	packetx { // trailing space 
+x_y_z
+{
+string
+ ,
+string x// @lengthOf(
+`two words`
+    ,  u8x { // `tick` ""quote"" 'q'
+charz `100% of %d` // packet A { u8 x, }
+,}// " ++ [27880; 37322]%N ++ runes_of_ascii "
+,} , }
+    // a // b
+    packet metadata {  @leftPad ( '0') repeat i32 options1 ,u64 uint8x , }
+")).
+Eval vm_compute in ("<<<M2065>>>" ++ check (runes_of_ascii "packet// packet A { u8 x, }
+repeatCount	{// packet A { u8 x, }
+@leftPad @leftPad ( '\x00'
+) repeat u8x MetaDataX `crlf
+line`,
+    repeat
+    char[] MetaDataX
+    ,
+u64	uint8x@calculatedFrom(""a\""b""
+// c
+// packet A { u8 x, }
+) `tab	here`
+,//
+}MetaData pack
+    {
+    }
+")).
+Eval vm_compute in ("<<<M3512>>>" ++ check (runes_of_ascii "// top
+packet // c0
+FooBar { // c2
+u8 a
+    // c4
+, // c5
+} packet // c7a
+  // c7b
+foo_bar
+    // c8
+{ u16 // c10
+b // c11
+, // c12a
+  // c12b
+} // c13
+root // c14a
+  // c14b
+packet
+    // c15
+R { FooBar // c18a
+  // c18b
+,
+    // c19
+foo_bar
+    // c20
+, } // c22
+")).
+Eval vm_compute in ("<<<M2127>>>" ++ check (runes_of_ascii "packet// packet A { u8 x, }
+repeatCount	{// packet A { u8 x, }
+@leftPad ( '\x00'
+) repeat u8x MetaDataX `crlf
+line`,
+    repeat
+    char[] MetaDataX
+    i64
+u64	uint8x@calculatedFrom(""a\""b""
+// c
+// packet A { u8 x, }
+) `tab	here`
+,//
+}MetaData pack
+    {
+    }
+")).
+Eval vm_compute in ("<<<M2061>>>" ++ check (runes_of_ascii "packet// packet A { u8 x, }
+repeatCount	@leftPad// packet A { u8 x, }
+{ ( '\x00'
+) repeat u8x MetaDataX `crlf
+line`,
+    repeat
+    char[] MetaDataX
+    ,
+u64	uint8x@calculatedFrom(""a\""b""
+// c
+// packet A { u8 x, }
+) `tab	here`
+,//
+}MetaData pack
+    {
+    }
+")).
+Eval vm_compute in ("<<<M2186>>>" ++ check (runes_of_ascii "packet// packet A { u8 x, }
+repeatCount	{// packet A { u8 x, }
+@leftPad ( '\x00'
+) repeat u8x MetaDataX `crlf
+line`,
+    repeat
+    char[] MetaDataX
+    ,
+u64	uint8x@calculatedFrom(""a\""b""
+// c
+// packet A { u8 x, }
+) `tab	here`
+,//
+}MetaData pack
+    {
+    :
+")).
+Eval vm_compute in ("<<<M2174>>>" ++ check (runes_of_ascii "packet// packet A { u8 x, }
+repeatCount	{// packet A { u8 x, }
+@leftPad ( '\x00'
+) repeat u8x MetaDataX `crlf
+line`,
+    repeat
+    char[] MetaDataX
+    ,
+u64	uint8x@calculatedFrom(""a\""b""
+// c
+// packet A { u8 x, }
+) `tab	here`
+,//
+}MetaData 
+    {
+    }
+")).
+Eval vm_compute in ("<<<M926>>>" ++ check (runes_of_ascii "
+root packet
+//x
+//
+T { repeat int32
+    T `a\` , } root	packet chars {string
+uint8x//	t
+, match Foo as Header {
+1 :
+charz [ 65535,4294967296
+//	t
+//
+, 10 // " ++ [128512]%N ++ runes_of_ascii " emoji
+, ""a	b"" ] : float ""x y""	: Pad , //
+65535 :trueish	, }
+, } // " ++ [27880; 37322]%N ++ runes_of_ascii "
+root packet a1 { }
+")).
+Eval vm_compute in ("<<<M225>>>" ++ check (runes_of_ascii "root	packet Z9_{@calculatedFrom(""a\\"" ) zchar[1
+]
+    a1@lengthOf( Z9_  )
+    ,	@tag(0123456789 ) @lengthOf( Header /// triple
+)/// triple
+@tag( 4294967296
+) uint8
+    u128 ,
+    i16 msg_type , // packet A { u8 x, }
+tag matchKey, } packet
+u8x {  }
+")).
+Eval vm_compute in ("<<<M1490>>>" ++ check (runes_of_ascii "packet calculatedFrom
+{ @calculatedFrom( ""a\\"" ) zchar[ 4294967296 ]
+calculatedFrom@lengthOf( pack )	`100% of %d` ,body char[]@calculatedFrom( ""// no comment"" )  ,
+@tag( 007) //x
+int8
+leftPad`it's` , repeat pack
+    { repeat char[ 3] body
+,},
+}")).
+Eval vm_compute in ("<<<M1470>>>" ++ check (runes_of_ascii "packet calculatedFrom
+{ @calculatedFrom( ""a\\"" ) zchar[ 4294967296 ]
+calculatedFrom@lengthOf( ) pack	`100% of %d` ,char[]body@calculatedFrom( ""// no comment"" )  ,
+@tag( 007) //x
+int8
+leftPad`it's` , repeat pack
+    { repeat char[ 3] body
+,},
+}")).
+Eval vm_compute in ("<<<M665>>>" ++ check (runes_of_ascii "  packet
+msg_type{
+@leftPad (' '
+) @lengthOf(calculatedFrom ) match zchar as u{[""packet"" ,
+""a	b"" ,	10
+    //x
+    ,
+255 ]// packet A { u8 x, }
+: // `tick` ""quote"" 'q'
+Pad  ,
+// " ++ [128512]%N ++ runes_of_ascii " emoji
+// c
+65535
+:	MetaDataX // trailing space 
+,	255 :
+o
+,}
+,
+}
+")).
+Eval vm_compute in ("<<<M1468>>>" ++ check (runes_of_ascii "packet calculatedFrom
+{ @calculatedFrom( ""a\\"" ) zchar[ 4294967296 ]
+calculatedFrom@lengthOf(  )	`100% of %d` ,char[]body@calculatedFrom( ""// no comment"" )  ,
+@tag( 007) //x
+int8
+leftPad`it's` , repeat pack
+    { repeat char[ 3] body
+,},
+}")).
+Eval vm_compute in ("<<<M4051>>>" ++ check (runes_of_ascii "// top
+options {
+    // c1
+    u = 00// c4
+    stringy = '0'// c7
+}// c8
+
+packet stringy {
+    // c11
+}// c12
+
+MetaData repeatCount {
+    // c15
+    MetaDataX leftPad,// c18
+    string body `
+    `,// c22
+    metadata options1,// c25
+}// c26")).
+Eval vm_compute in ("<<<M824>>>" ++ check (runes_of_ascii "packet falsey { @lengthOf(// `tick` ""quote"" 'q'
+metadata)  @lengthOf(
+    u128) @calculatedFrom( ""x y"" ) match trueish as crc
+    { """ ++ [233]%N ++ runes_of_ascii "t" ++ [233]%N ++ runes_of_ascii """: msg_type ,[65535 // `tick` ""quote"" 'q'
+,3
+    ]
+: int , 7 :
+Z9_ ,""x y"": options1,
+}  ,	}
+")).
+Eval vm_compute in ("<<<M3685>>>" ++ check (runes_of_ascii "
+packet
+	Packet  {
+u64 
+MetaDataX
+,
+
+    @lengthOf(
+
+    u128  )
+    @calculatedFrom( """ ++ [28040; 24687]%N ++ runes_of_ascii """
+	)
+@tag(1
+
+    )  // c
+repeat Z9_
+
+u128 ,
+} root packet
+
+chars{
+@tag( 255) 
+char[
+007 ]chars@lengthOf(
+    i64_  ) 
+, 
+}")).
+Eval vm_compute in ("<<<M1056>>>" ++ check (runes_of_ascii "
+root packet/// triple
+chars {
+repeat// @lengthOf(
+int16
+    string_ , } MetaData msg_type { zchar[	00] Pad, trueish uint8x , float32 matchKey	`two words`
+// " ++ [128512]%N ++ runes_of_ascii " emoji
+// " ++ [128512]%N ++ runes_of_ascii " emoji
+, int32
+    /// triple
+    a1 , }")).
+Eval vm_compute in ("<<<M237>>>" ++ check (runes_of_ascii "root packet
+msg_type { @leftPad	(
+'\x00' )
+// trailing space 
+//x
+o@lengthOf( x_y_z )
+    , repeat
+// 50% %s
+// c
+f64 matchKey `it's` , @calculatedFrom( ""1""
+    ) uint16 // trailing space 
+matchKey ,}")).
+Eval vm_compute in ("<<<M3598>>>" ++ check (runes_of_ascii "options {
+}
+
+packet Packet {
+    i64_,
+    @tag(255)
+    match crc as i8i8 {
+        ""{,}"" : trueish,
+        """" : Pad,
+        ""a\\"" : Foo,
+        1 : packetx,
+        """ ++ [128512]%N ++ runes_of_ascii """ : trueish,
+    },
+}")).
+Eval vm_compute in ("<<<M3505>>>" ++ check (runes_of_ascii "options {
+    FixedStringPadChar = '0';
+}
+packet Q {
+    zchar[4] z,
+    @rightPad('\x00') char[3] n,
+    char[5] d,
+}
+root packet R {
+    Q,
+    zchar[8] top,
+    repeat zchar[2] zs,
+}
+")).
+Eval vm_compute in ("<<<M372>>>" ++ check (runes_of_ascii "options { u
+    = false	} //
+options {}	options {
+x_y_z =
+    false ; } MetaData a1 //
+{ }
+options { // 50% %s
+u8x= // " ++ [128512]%N ++ runes_of_ascii " emoji
+true ; metadata=
+    ""it's"";MetaDataX =	007 ;
+}
+")).
+Eval vm_compute in ("<<<M3435>>>" ++ check (runes_of_ascii "// top
+root // c0a
+  // c0b
+packet // c1
+P
+    // c2
+{ // c3a
+  // c3b
+char
+    // c4
+c
+    // c5
+, // c6
+u8 // c7a
+  // c7b
+x // c8
+, // c9a
+  // c9b
+} // c10a
+  // c10b
+")).
+Eval vm_compute in ("<<<M645>>>" ++ check (runes_of_ascii "options{ f32a
+=
+""{,}""
+;
+    // " ++ [27880; 37322]%N ++ runes_of_ascii "
+    }
+packet lengthOf  { repeat zchar`" ++ [233]%N ++ runes_of_ascii "`
+, }MetaData u8x{ uint32
+MetaDataX `crlf
+line` ,
+} MetaData //
+zchar
+    {
+float64 T	,	}")).
+Eval vm_compute in ("<<<M611>>>" ++ check (runes_of_ascii "MetaData metadata
+    { float
+    packetx `" ++ [233]%N ++ runes_of_ascii "` ,
+// " ++ [128512]%N ++ runes_of_ascii " emoji
+// @lengthOf(
+T // `tick` ""quote"" 'q'
+u8x, //
+asx	stringy	`" ++ [28040; 24687; 31867; 22411]%N ++ runes_of_ascii "` , i8i8 f32a, char[
+255 ] As
+    , }
+")).
+Eval vm_compute in ("<<<M1725>>>" ++ check (runes_of_ascii "options { } packet Packet{char[] i64_ ,
+@tag(
+    255) match
+crc as i8i8{""{,}"" zchar[ trueish """" : Pad , ""a\\"" :
+Foo ,
+    1 :packetx
+, """ ++ [128512]%N ++ runes_of_ascii """ : trueish , } , }")).
+Eval vm_compute in ("<<<M1763>>>" ++ check (runes_of_ascii "options { } packet Packet{char[] i64_ ,
+@tag(
+    255) match
+crc as i8i8{""{,}"" : trueish """" : Pad , ""a\\"" :
+Foo Foo ,
+    1 :packetx
+, """ ++ [128512]%N ++ runes_of_ascii """ : trueish , } , }")).
+Eval vm_compute in ("<<<M2409>>>" ++ check (runes_of_ascii "
+packet MetaDataX
+{
+    @leftPad
+( // a // b
+'0'
+) i8 u @lengthOf(
+MetaDataX
+    ) `say ""hi""` ,	} MetaData BodyLength {
+    a" ++ [769]%N ++ runes_of_ascii "b
+x_y_z `" ++ [233]%N ++ runes_of_ascii "`
+, uint64 u128 , }
+")).
+Eval vm_compute in ("<<<M1839>>>" ++ check (runes_of_ascii "options { } packet Packet{char[] i64_ ,
+@tag(
+    ' 255) match
+crc as i8i8{""{,}"" : trueish """" : Pad , ""a\\"" :
+Foo ,
+    1 :packetx
+, """ ++ [128512]%N ++ runes_of_ascii """ : trueish , } , }")).
+Eval vm_compute in ("<<<M1840>>>" ++ check (runes_of_ascii "options { } packet Packet{char[] i64_ ~,
+@tag(
+    255) match
+crc as i8i8{""{,}"" : trueish """" : Pad , ""a\\"" :
+Foo ,
+    1 :packetx
+, """ ++ [128512]%N ++ runes_of_ascii """ : trueish , } , }")).
+Eval vm_compute in ("<<<M1750>>>" ++ check (runes_of_ascii "options { } packet Packet{char[] i64_ ,
+@tag(
+    255) match
+crc as i8i8{""{,}"" : trueish """" : Pad ( ""a\\"" :
+Foo ,
+    1 :packetx
+, """ ++ [128512]%N ++ runes_of_ascii """ : trueish , } , }")).
+Eval vm_compute in ("<<<M1712>>>" ++ check (runes_of_ascii "options { } packet Packet{char[] i64_ ,
+@tag(
+    255) match
+crc as i8i8""{,}"" : trueish """" : Pad , ""a\\"" :
+Foo ,
+    1 :packetx
+, """ ++ [128512]%N ++ runes_of_ascii """ : trueish , } , }")).
+Eval vm_compute in ("<<<M2422>>>" ++ check (runes_of_ascii "
+packet MetaDataX
+{
+    @leftPad
+( // a // b
+'0'
+) i8 u @tag(
+MetaDataX
+    ) `say ""hi""` ,	} MetaData BodyLength {
+    asx
+x_y_z `" ++ [233]%N ++ runes_of_ascii "`
+, uint64 u128 , }
+")).
+Eval vm_compute in ("<<<M1930>>>" ++ check (runes_of_ascii "packet	packetx { // trailing space 
+x_y_z
+{
+string
+charz ,
+string x// @lengthOf(
+`two words`
+    ,  u8x { // `tick` ""quote"" 'q'
+charz `100% of %d`")).
+Eval vm_compute in ("<<<M1802>>>" ++ check (runes_of_ascii "options { } packet Packet{char[] i64_ ,
+@tag(
+    255) match
+crc as i8i8{""{,}"" : trueish """" : Pad , ""a\\"" :
+Foo ,
+    1 :packetx
+, """ ++ [128512]%N ++ runes_of_ascii """ :  , } , }")).
+Eval vm_compute in ("<<<M1270>>>" ++ check (runes_of_ascii "options {
+// trailing space 
+// `tick` ""quote"" 'q'
+u128= false ;
+Pad
+= false;
+BodyLength = char[] body
+=
+true u =' ' } // packet A { u8 x, }")).
+Eval vm_compute in ("<<<M4449>>>" ++ check (runes_of_ascii "
+options
+// `tick` ""quote"" 'q'
+
+// a // b
+  { crc
+=// trailing space 
+	""// no comment"" ;
+
+    }
+
+MetaData o{
+i32
+
+    zchar
+``
+, }
+")).
+Eval vm_compute in ("<<<M3723>>>" ++ check (runes_of_ascii "
+options
+
+{ 
+// `tick` ""quote"" 'q'
+	/// triple
+      x  // " ++ [128512]%N ++ runes_of_ascii " emoji
+	=
+	'\x00'; asx
+=
+    char[ 42// 50% %s
+] 
+} 
+    // @lengthOf(
+")).
+Eval vm_compute in ("<<<M445>>>" ++ check (runes_of_ascii "// c
+root packet repeatCount { //	t
+@tag( 42
+) roots ,
+    } MetaData As
+    {  } MetaData	repeatCount // packet A { u8 x, }
+{}
+")).
+Eval vm_compute in ("<<<M3044>>>" ++ check (runes_of_ascii "packet A {
+    u16 len @lengthOf(body) `a
+    b
+  c`,
+    u32 crc @calculatedFrom(""CRC32"") `a
+    b
+  c`,
+    string body,
+}")).
+Eval vm_compute in ("<<<M3292>>>" ++ check (runes_of_ascii "MetaData metadata { } MetaData rootA { i8 i64_ , roots options1 `a\` , lengthOf Header // c
+, Z9_ Foo , int16 BodyLength , }")).
+Eval vm_compute in ("<<<M3452>>>" ++ check (runes_of_ascii "packet B {
+    u8 a,
+}
+root packet P {
+    u8 K,
+    u8 L @lengthOf(Body),
+    match K as Body {
+        1 : B,
     },
 }
-
-options {
-}")).
-Eval vm_compute in ("<<<M1173>>>" ++ check (runes_of_ascii "packet Logon { @tag( 42 ) @rightPad ( ' ' ) @leftPad ( ) repeat trueish { string T , } , }
-// c
 ")).
-Eval vm_compute in ("<<<M1154>>>" ++ check (runes_of_ascii "packet Logon { @tag( 42 ) @rightPad ( ' ' ) @leftPad ( ) // c
-repeat trueish { string T , } , }")).
-Eval vm_compute in ("<<<M890>>>" ++ check (runes_of_ascii "packet A {
+Eval vm_compute in ("<<<M268>>>" ++ check (runes_of_ascii "MetaData
+    falsey { char[ 7 ]T
+, u8 stringy
+    , i64  x // `tick` ""quote"" 'q'
+,
+    char[ 0 ]
+    i8i8  `doc`
+,}")).
+Eval vm_compute in ("<<<M870>>>" ++ check (runes_of_ascii "// " ++ [27880; 37322]%N ++ runes_of_ascii "
+options
+    {  } packet
+    Foo/// triple
+{match charz
+    as body {4294967296 : int
+    ,
+} ,// 50% %s
+}")).
+Eval vm_compute in ("<<<M3331>>>" ++ check (runes_of_ascii "MetaData float { uint8 BodyLength , }
+// c
+MetaData charz { float32 trueish `a\` , i16 metadata `say ""hi""` , }")).
+Eval vm_compute in ("<<<M988>>>" ++ check (runes_of_ascii "packet
+    zchar  {
+@calculatedFrom(  """ ++ [233]%N ++ runes_of_ascii "t" ++ [233]%N ++ runes_of_ascii """ )char[ // `tick` ""quote"" 'q'
+7 ]
+string_
+@lengthOf( charz) , }
+")).
+Eval vm_compute in ("<<<M3062>>>" ++ check (runes_of_ascii "packet A {
+    u16 len @lengthOf(body) `
+x`,
+    u32 crc @calculatedFrom(""CRC32"") `
+x`,
+    string body,
+}")).
+Eval vm_compute in ("<<<M3020>>>" ++ check (runes_of_ascii "packet A {
   match k as n {
-    [1, 22, 007, 4, 5, 66, 7, 8, 9, 10, 11] : B,
+    [1, 22, ""c c"", 4, 5, ""f"", 7, 8, ""i"", 10, 11, ""l""] : B
     2 : C
   },
 }")).
-Eval vm_compute in ("<<<M1597>>>" ++ check (runes_of_ascii "
-root 
+Eval vm_compute in ("<<<M901>>>" ++ check (runes_of_ascii "
+options{ packetx	=  ""a\""b""; _x
+= ""CRC32""len// @lengthOf(
+= uint64 ; crc	= """" ; uint8x= ""a	b""
+    }")).
+Eval vm_compute in ("<<<M37>>>" ++ check (runes_of_ascii "root
+packet msg_type // packet A { u8 x, }
+{ @lengthOf(
+u8x	)	string
+pack @lengthOf( pack )
+, }")).
+Eval vm_compute in ("<<<M878>>>" ++ check (runes_of_ascii "packet repeatCount
+    { @lengthOf(
+x
+    )@calculatedFrom(
+""// no comment"" )
+f64 options1 ,}")).
+Eval vm_compute in ("<<<M3974>>>" ++ check (runes_of_ascii "
 packet
+A {u16	// a
+len // b
+@lengthOf(  // c
+  body // d
+) // e
+  `d`  // f
 
-SimpleMessage{
-	uint16	MsgType
-`" ++ [28040; 24687; 31867; 22411]%N ++ runes_of_ascii "` ,string
-JsonBody `Json" ++ [23383; 31526; 20018; 28040; 24687; 20307]%N ++ runes_of_ascii "`	,
+	,
 
+    } ")).
+Eval vm_compute in ("<<<M3608>>>" ++ check (runes_of_ascii "packet A {
+    B b `a
+        b`,
+    B `a
+        b`,
+    repeat B bs `a
+        b`,
 }")).
-Eval vm_compute in ("<<<M1335>>>" ++ check (runes_of_ascii "options {
-    LittleEndian = true;
-}
-root packet P {
-    repeat char cs,
-    u8 x,
-}
+Eval vm_compute in ("<<<M2221>>>" ++ check (runes_of_ascii "MetaData _x string{ x `// not a comment` , string
+i64_ // trailing space 
+`a\` ,
+    }
 ")).
-Eval vm_compute in ("<<<M847>>>" ++ check (runes_of_ascii "packet A {
+Eval vm_compute in ("<<<M4042>>>" ++ check (runes_of_ascii "packet
+
+    o{ 
+	    // c
+
+@tag(
+4294967296
+    ) 
+options1 
+@lengthOf( u8x
+)`" ++ [233]%N ++ runes_of_ascii "`
+,}")).
+Eval vm_compute in ("<<<M1467>>>" ++ check (runes_of_ascii "packet calculatedFrom
+{ @calculatedFrom( ""a\\"" ) zchar[ 4294967296 ]
+calculatedFrom")).
+Eval vm_compute in ("<<<M2954>>>" ++ check (runes_of_ascii "packet A {
   match k as n {
-    [1, 22, ""c c"", 4, 5, ""f"", 7] : B
+    [1, 22, ""c c"", 4, 5, ""f"", 7] : B,
     2 : C
   },
 }")).
-Eval vm_compute in ("<<<M1237>>>" ++ check (runes_of_ascii "packet o { @tag( 42 ) repeat x { char[ 0123456789 ] i64_ , }
-// c
-, } options { }")).
-Eval vm_compute in ("<<<M971>>>" ++ check (runes_of_ascii "packet A {
-    u32 crc @calculatedFrom(""\
-""),
-    @calculatedFrom(""\
-"") u8 y,
+Eval vm_compute in ("<<<M2746>>>" ++ check (runes_of_ascii "options char string int64 i8 @lengthOf( u64 = uint8 @rightPad ; @rightPad } char")).
+Eval vm_compute in ("<<<M3448>>>" ++ check (runes_of_ascii "  packet Inner 
+{u8 a,	} 
+root	packet P
+	{
+	repeat	Inner items  , u8
+    x	,	}")).
+Eval vm_compute in ("<<<M3364>>>" ++ check (runes_of_ascii "MetaData // c
+_x { f64 charz `tab	here` , } options { BodyLength = """ ++ [233]%N ++ runes_of_ascii "t" ++ [233]%N ++ runes_of_ascii """ ; }")).
+Eval vm_compute in ("<<<M680>>>" ++ check (runes_of_ascii "options
+{
+Packet= f64 T = '\x00'
+    //x
+    ;Header = 42 ; stringy = 1;
 }")).
-Eval vm_compute in ("<<<M2005>>>" ++ check (runes_of_ascii "root packet P {
-    u16 a,
-    u32 Sum @calculatedFrom(""CR\
-        C32""),
+Eval vm_compute in ("<<<M2912>>>" ++ check (runes_of_ascii "packet A {
+  match k as n {
+    [1, ""bb"", 007, ""d""] : B
+    2 : C
+  },
 }")).
-Eval vm_compute in ("<<<M1795>>>" ++ check (runes_of_ascii "packet A {
-    B b `
-    x`,
-    B `
-    x`,
-    repeat B bs `
-    x`,
+Eval vm_compute in ("<<<M345>>>" ++ check (runes_of_ascii "// trailing space 
+MetaData
+repeatCount  { u32 i64_
+`100% of %d`
+,}
+")).
+Eval vm_compute in ("<<<M3410>>>" ++ check (runes_of_ascii "packet o { @tag( 4294967296 // c
+) options1 @lengthOf( u8x ) `" ++ [233]%N ++ runes_of_ascii "` , }")).
+Eval vm_compute in ("<<<M3695>>>" ++ check (runes_of_ascii "
+packet charz{ u8 
+    //	t
+//	t
+	_x 
+`
+`
+
+    ,// 50% %s
+	} ")).
+Eval vm_compute in ("<<<M3920>>>" ++ check (runes_of_ascii "
+MetaData M
+    {
+
+u8
+    x
+
+    `a
+b` 
+, T 
+t
+`a
+b` 
+,  }
+
+")).
+Eval vm_compute in ("<<<M2892>>>" ++ check (runes_of_ascii "packet A {
+  match k as n {
+    [""a"", 22] : B
+    2 : C
+  },
 }")).
-Eval vm_compute in ("<<<M1319>>>" ++ check (runes_of_ascii "MetaData _x { zchar[ 4294967296 ] // c
-lengthOf `// not a comment` , }")).
-Eval vm_compute in ("<<<M923>>>" ++ check (runes_of_ascii "packet A {
-    B b `a
-b`,
-    B `a
-b`,
-    repeat B bs `a
-b`,
-}")).
-Eval vm_compute in ("<<<M824>>>" ++ check (runes_of_ascii "packet A { Inner { match k as n { [1,22,007,4,5] : B, }, }, }")).
-Eval vm_compute in ("<<<M1087>>>" ++ check (runes_of_ascii "packet A { @tag(1) // a
+Eval vm_compute in ("<<<M1885>>>" ++ check (runes_of_ascii "packet	packetx { // trailing space 
+x_y_z
+{
+string
+charz")).
+Eval vm_compute in ("<<<M3216>>>" ++ check (runes_of_ascii "packet A { @tag(1) // a
  @leftPad('0') // b
  char[4] x, }")).
-Eval vm_compute in ("<<<M1332>>>" ++ check (runes_of_ascii "root packet P {
-    repeat char cs,
-    u8 x,
+Eval vm_compute in ("<<<M1343>>>" ++ check (runes_of_ascii "MetaData metadata
+{ matchKey chars
+    ,
+}
+// 50% %s
+")).
+Eval vm_compute in ("<<<M2735>>>" ++ check (runes_of_ascii "i64 as i32 repeat `tab	here` { repeat zchar[ options")).
+Eval vm_compute in ("<<<M2884>>>" ++ check (runes_of_ascii "packet A { Inner { match k as n { [1] : B, }, }, }")).
+Eval vm_compute in ("<<<M691>>>" ++ check (runes_of_ascii "packet
+    u8x
+{
+// " ++ [27880; 37322]%N ++ runes_of_ascii "
+// packet A { u8 x, }
 }
 ")).
-Eval vm_compute in ("<<<M1120>>>" ++ check (runes_of_ascii "MetaData zchar { zchar[ 3 ] Pad , } // c
+Eval vm_compute in ("<<<M1686>>>" ++ check (runes_of_ascii "options { } packet Packet{char[] i64_ ,
+@tag(")).
+Eval vm_compute in ("<<<M2619>>>" ++ check (runes_of_ascii "packet A { repeat B { C { u8 x, }, D d, }, }")).
+Eval vm_compute in ("<<<M3099>>>" ++ check (runes_of_ascii "options {
+    a = ""%d%s"";
+    b = ""%d%s""
+}")).
+Eval vm_compute in ("<<<M3231>>>" ++ check (runes_of_ascii "// c
+MetaData zchar { zchar[ 3 ] Pad , }")).
+Eval vm_compute in ("<<<M2674>>>" ++ check (runes_of_ascii "MetaData M { match k as n { 1 : B }, }")).
+Eval vm_compute in ("<<<M28>>>" ++ check (runes_of_ascii "packet
+Z9_{ zchar[ 7]//x
+falsey  , }")).
+Eval vm_compute in ("<<<M2765>>>" ++ check (runes_of_ascii "=)GWW.K%I""*GRuKBA`>Z3#V@hF`wP=H/<KF")).
+Eval vm_compute in ("<<<M551>>>" ++ check (runes_of_ascii "MetaData _x
+    { // @lengthOf(
+}")).
+Eval vm_compute in ("<<<M3065>>>" ++ check (runes_of_ascii "root packet A {
+    u8 x `
+x`,
+}")).
+Eval vm_compute in ("<<<M3156>>>" ++ check (runes_of_ascii "packet A {
+ u8 x `d" ++ [8287]%N ++ runes_of_ascii "`, // c" ++ [8287]%N ++ runes_of_ascii "
+}")).
+Eval vm_compute in ("<<<M3790>>>" ++ check (runes_of_ascii "packet 
+// 50% %s
+  u128{}
 ")).
-Eval vm_compute in ("<<<M970>>>" ++ check (runes_of_ascii "options {
-    a = ""\
-"";
-    b = ""\
-""
-}")).
-Eval vm_compute in ("<<<M1517>>>" ++ check (runes_of_ascii "packet A {
-    @tag(1)
-    u8 x,
-}")).
-Eval vm_compute in ("<<<M78>>>" ++ check (runes_of_ascii "options { zchar=
-    false ; }")).
-Eval vm_compute in ("<<<M1584>>>" ++ check (runes_of_ascii "options {
-    u8x = 3
+Eval vm_compute in ("<<<M1357>>>" ++ check (runes_of_ascii "packet BodyLength { }
+//x
+")).
+Eval vm_compute in ("<<<M3208>>>" ++ check (runes_of_ascii "options { a = 1 // a
+ ; }")).
+Eval vm_compute in ("<<<M2599>>>" ++ check (runes_of_ascii "packet A { char[ 3 y, }")).
+Eval vm_compute in ("<<<M3726>>>" ++ check (runes_of_ascii "// c" ++ [8232]%N ++ runes_of_ascii "
+
+packet 
+A {}
+
+")).
+Eval vm_compute in ("<<<M2592>>>" ++ check (runes_of_ascii "packet A { x y z, }")).
+Eval vm_compute in ("<<<M3124>>>" ++ check (runes_of_ascii "packet A {
 }
-// c")).
-Eval vm_compute in ("<<<M1185>>>" ++ check (runes_of_ascii "options // c
-{ u8x = 3 }")).
-Eval vm_compute in ("<<<M1063>>>" ++ check (runes_of_ascii "packet A {
-}// a// b")).
-Eval vm_compute in ("<<<M991>>>" ++ check (runes_of_ascii "// c" ++ [133]%N ++ runes_of_ascii "
-packet A {
-}")).
-Eval vm_compute in ("<<<M743>>>" ++ check (runes_of_ascii ", , `u8 x,` u32 (")).
-Eval vm_compute in ("<<<M290>>>" ++ check (runes_of_ascii "options{  }
+// c" ++ [5760]%N)).
+Eval vm_compute in ("<<<M4364>>>" ++ check (runes_of_ascii "  MetaData 
+x{  }
 ")).
-Eval vm_compute in ("<<<M989>>>" ++ check (runes_of_ascii "// c" ++ [133]%N)).
+Eval vm_compute in ("<<<M3177>>>" ++ check (runes_of_ascii "packet A {
+}// c" ++ [65279]%N)).
+Eval vm_compute in ("<<<M2876>>>" ++ check (runes_of_ascii ",5s`>:r(Jb{*/[(")).
+Eval vm_compute in ("<<<M296>>>" ++ check (runes_of_ascii "// a // b
+
+")).
+Eval vm_compute in ("<<<M2505>>>" ++ check (runes_of_ascii "@centerPad")).
+Eval vm_compute in ("<<<M2736>>>" ++ check ([28]%N ++ runes_of_ascii "Kk" ++ [7; 65533]%N ++ runes_of_ascii "/" ++ [65533; 65533]%N)).
+Eval vm_compute in ("<<<M1422>>>" ++ check (runes_of_ascii "packet")).
+Eval vm_compute in ("<<<M2493>>>" ++ check (runes_of_ascii "'\x0'")).
+Eval vm_compute in ("<<<M2464>>>" ++ check (runes_of_ascii "i8i8")).
+Eval vm_compute in ("<<<M2473>>>" ++ check (runes_of_ascii "asx")).
+Eval vm_compute in ("<<<M2472>>>" ++ check (runes_of_ascii "as")).
+Eval vm_compute in ("<<<M2576>>>" ++ check ([21517]%N)).
